@@ -2,14 +2,12 @@
 from __future__ import annotations
 
 import ast
-from ..expand import clone
+import re
 
-from ..cfg import CFG
 from ..loops import dotted
 from ..nf import NF, Scope, Poly, parse_expr
-from ..sem import same_ingredients
-from ..repo import Repo, loc, short, AnalysisError, positional_params, param_names, bind_call
-from ..sem import guard_literals, spec, stmt_calls, on_every_path_once
+from ..repo import Repo, loc, short, AnalysisError, param_names, bind_call
+from ..sem import stmt_calls
 
 EXPLANATION = (
     "Window validity is modular index arithmetic over arbitrary add-histories; no sound static argument in reach bounds it, so the "
@@ -36,83 +34,25 @@ CQ = RB + "SubtrajectoryReplayBuffer"
 
 
 def _m(repo, cq, name):
-    m = repo.method(cq, name, inherited=False)
+    m = repo.method(cq, name)    # follows inheritance: the method may live in a base class / mixin
     if m is None:
         raise AnalysisError(f"{cq}.{name} not found (anchor vanished)")
     fn = m[1]
-    fn._module = repo.cls(cq)._module
+    fn._module = repo.cls(m[0])._module
     return fn
-
-
-class MaskStore:
-    """A write of mask_: direct `self.mask_[idx] = val` or through a one-store helper method `self.h(idx, flag)`."""
-
-    def __init__(self, node, idx, val, via=None):
-        self.node, self.idx, self.val, self.via = node, idx, val, via
-        self.id = node.id
-        self.ast = node.ast
-
-    def value(self) -> str:
-        return _norm_val(self.val)
-
-
-def _norm_val(v) -> str:
-    """Canonical text of a stored mask value: constants, and `a if c else b` with constant / negated conditions folded."""
-    if isinstance(v, ast.Constant) and isinstance(v.value, (bool, int)):
-        return str(int(v.value))
-    if isinstance(v, ast.IfExp):
-        t, a, b = v.test, v.body, v.orelse
-        if isinstance(t, ast.Constant):
-            return _norm_val(a if t.value else b)
-        if isinstance(t, ast.UnaryOp) and isinstance(t.op, ast.Not):
-            return _norm_val(ast.IfExp(test=t.operand, body=b, orelse=a))
-        return f"{_norm_val(a)} if {ast.unparse(t)} else {_norm_val(b)}"
-    return ast.unparse(v)
-
-
-class _Subst(ast.NodeTransformer):
-    def __init__(self, m):
-        self.m = m
-
-    def visit_Name(self, n):
-        return self.m.get(n.id, n)
-
-
-def _mask_stores(cfg, cls=None):
-    import copy
-    out = []
-    helpers = {}
-    if cls is not None:
-        for meth in cls.body:
-            if isinstance(meth, ast.FunctionDef):
-                sts = [x for x in ast.walk(meth) if isinstance(x, ast.Assign) and isinstance(x.targets[0], ast.Subscript) and dotted(x.targets[0].value) == "self.mask_"]
-                params = [a.arg for a in meth.args.args[1:]]
-                if len(sts) == 1 and meth.name not in ("add_sample", "__init__") and isinstance(sts[0].targets[0].slice, ast.Name) and sts[0].targets[0].slice.id in params:
-                    helpers[meth.name] = (meth, sts[0], params)
-    for n in cfg.nodes:
-        s = n.ast
-        if n.kind == "stmt" and isinstance(s, ast.Assign) and isinstance(s.targets[0], ast.Subscript) and dotted(s.targets[0].value) == "self.mask_":
-            out.append(MaskStore(n, s.targets[0].slice, s.value))
-        elif n.kind == "stmt" and isinstance(s, ast.Expr) and isinstance(s.value, ast.Call) and isinstance(s.value.func, ast.Attribute) and dotted(s.value.func.value) == "self" and s.value.func.attr in helpers:
-            meth, st, params = helpers[s.value.func.attr]
-            m = {p: a for p, a in zip(params, s.value.args)}
-            for k in s.value.keywords:
-                m[k.arg] = k.value
-            idx = _Subst(m).visit(clone(st.targets[0].slice))
-            val = _Subst(m).visit(clone(st.value))
-            out.append(MaskStore(n, idx, val, via=meth.name))
-    return out
 
 
 _KEYS = ("observation", "action", "reward", "next_observation", "terminated", "truncated")
 
 
-def _const_test(t, k, env):
-    """Evaluate a test on the loop key ``k`` (a constant); None if it does not only depend on the key."""
-    if isinstance(t, ast.Compare) and len(t.ops) == 1 and isinstance(t.left, ast.Name) and t.left.id == "k":
+def _const_test(t, k, env, kv="k"):
+    """Evaluate a test on the loop key (variable ``kv``, a constant ``k``); None if it does not only depend on the key."""
+    if isinstance(t, ast.Compare) and len(t.ops) == 1 and isinstance(t.left, ast.Name) and t.left.id == kv:
         op, c = t.ops[0], t.comparators[0]
         if isinstance(c, ast.Name) and isinstance(env.get(c.id), ast.Dict):
             c = ast.List(elts=[x for x in env[c.id].keys if x is not None], ctx=ast.Load())
+        if isinstance(c, ast.Name) and isinstance(env.get(c.id), (ast.List, ast.Tuple, ast.Set)):
+            c = env[c.id]
         if isinstance(op, (ast.Eq, ast.NotEq)) and isinstance(c, ast.Constant):
             r = c.value == k
             return r if isinstance(op, ast.Eq) else not r
@@ -120,40 +60,43 @@ def _const_test(t, k, env):
             r = k in [x.value for x in c.elts]
             return r if isinstance(op, ast.In) else not r
         return None
+    if isinstance(t, ast.Compare) and len(t.ops) == 1 and isinstance(t.ops[0], (ast.Eq, ast.NotEq)) and isinstance(t.left, ast.Constant) and isinstance(t.comparators[0], ast.Name) and t.comparators[0].id == kv:
+        r = t.left.value == k
+        return r if isinstance(t.ops[0], ast.Eq) else not r
     if isinstance(t, ast.BoolOp):
-        vs = [_const_test(x, k, env) for x in t.values]
+        vs = [_const_test(x, k, env, kv) for x in t.values]
         if any(v is None for v in vs):
             return None
         return all(vs) if isinstance(t.op, ast.And) else any(vs)
     if isinstance(t, ast.UnaryOp) and isinstance(t.op, ast.Not):
-        v = _const_test(t.operand, k, env)
+        v = _const_test(t.operand, k, env, kv)
         return None if v is None else not v
     return None
 
 
-def _specialise(e, k, env):
-    """Resolve key-dependent selections in an index expression for the concrete key ``k``."""
+def _specialise(e, k, env, kv="k"):
+    """Resolve key-dependent selections in an index expression for the concrete key ``k`` (the loop variable is ``kv``)."""
     if isinstance(e, ast.Name) and e.id in env and not isinstance(env[e.id], ast.Dict):
-        return _specialise(env[e.id], k, env)
+        return _specialise(env[e.id], k, env, kv)
     if isinstance(e, ast.IfExp):
-        v = _const_test(e.test, k, env)
+        v = _const_test(e.test, k, env, kv)
         if v is None:
             raise AnalysisError(f"{CQ}.sample_batch: index selection `{short(e, 60)}` does not only depend on the field name (unrecognised idiom)")
-        return _specialise(e.body if v else e.orelse, k, env)
+        return _specialise(e.body if v else e.orelse, k, env, kv)
     if isinstance(e, ast.Call) and isinstance(e.func, ast.Attribute) and e.func.attr == "get" and isinstance(e.func.value, ast.Name) and isinstance(env.get(e.func.value.id), ast.Dict) \
-            and e.args and isinstance(e.args[0], ast.Name) and e.args[0].id == "k":
+            and e.args and isinstance(e.args[0], ast.Name) and e.args[0].id == kv and not e.keywords:
         d = env[e.func.value.id]
         for kk, vv in zip(d.keys, d.values):
             if isinstance(kk, ast.Constant) and kk.value == k:
-                return _specialise(vv, k, env)
+                return _specialise(vv, k, env, kv)
         if len(e.args) > 1:
-            return _specialise(e.args[1], k, env)
+            return _specialise(e.args[1], k, env, kv)
         raise AnalysisError(f"{CQ}.sample_batch: `{short(e, 60)}` has no default for field `{k}`")
-    if isinstance(e, ast.Subscript) and isinstance(e.value, ast.Name) and isinstance(env.get(e.value.id), ast.Dict) and isinstance(e.slice, ast.Name) and e.slice.id == "k":
+    if isinstance(e, ast.Subscript) and isinstance(e.value, ast.Name) and isinstance(env.get(e.value.id), ast.Dict) and isinstance(e.slice, ast.Name) and e.slice.id == kv:
         d = env[e.value.id]
         for kk, vv in zip(d.keys, d.values):
             if isinstance(kk, ast.Constant) and kk.value == k:
-                return _specialise(vv, k, env)
+                return _specialise(vv, k, env, kv)
         raise AnalysisError(f"{CQ}.sample_batch: `{short(e, 60)}` has no entry for field `{k}`")
     return e
 
@@ -161,8 +104,9 @@ def _specialise(e, k, env):
 _REDUCER_CALLS = {"mod", "remainder", "fmod", "where", "take", "divmod"}
 
 
-def _offset_unreduced(e, at, cfg, depth=0):
-    """True when a horizon-dependent offset occurs in index expression ``e`` outside every ring reduction (%, np.mod, np.where, take)."""
+def _offset_unreduced(e, at, cfg, depth=0, hz="horizon"):
+    """True when an offset by the sampling horizon (parameter ``hz``) occurs in index expression ``e`` outside every ring reduction
+    (%, np.mod, np.where, take)."""
     if depth > 10:
         return False
     if isinstance(e, ast.BinOp) and isinstance(e.op, ast.Mod):
@@ -170,41 +114,58 @@ def _offset_unreduced(e, at, cfg, depth=0):
     if isinstance(e, ast.Call) and ((isinstance(e.func, ast.Attribute) and e.func.attr in _REDUCER_CALLS) or (isinstance(e.func, ast.Name) and e.func.id in _REDUCER_CALLS)):
         return False
     if isinstance(e, ast.Name):
-        if e.id == "horizon":
-            return True
         ds = cfg.defs_of(at, e.id)
+        if e.id == hz and all(d_.kind == "param" for d_ in ds):
+            return True
         if len(ds) == 1 and ds[0].kind == "assign" and ds[0].value is not None:
-            return _offset_unreduced(ds[0].value, ds[0].node, cfg, depth + 1)
+            return _offset_unreduced(ds[0].value, ds[0].node, cfg, depth + 1, hz)
         return False
     if isinstance(e, ast.Subscript):
-        return _offset_unreduced(e.value, at, cfg, depth + 1)
-    return any(_offset_unreduced(c, at, cfg, depth + 1) for c in ast.iter_child_nodes(e))
+        return _offset_unreduced(e.value, at, cfg, depth + 1, hz)
+    return any(_offset_unreduced(c, at, cfg, depth + 1, hz) for c in ast.iter_child_nodes(e))
 
 
-def _gather_index(e):
-    """IDX of the (single) `self.buffer[k][IDX]` gather inside expression e."""
-    gs = [n for n in ast.walk(e) if isinstance(n, ast.Subscript) and isinstance(n.value, ast.Subscript) and dotted(n.value.value) == "self.buffer"
-          and isinstance(n.value.slice, ast.Name) and n.value.slice.id == "k"]
+def _gather_index(e, kv="k", vv=None):
+    """IDX of the (single) `self.buffer[kv][IDX]` (or `vv[IDX]`, vv the storage array of the field) gather inside expression e."""
+    gs = [n for n in ast.walk(e) if isinstance(n, ast.Subscript) and isinstance(getattr(n, "ctx", None), ast.Load) and (
+          (isinstance(n.value, ast.Subscript) and dotted(n.value.value) == "self.buffer" and isinstance(n.value.slice, ast.Name) and n.value.slice.id == kv)
+          or (vv is not None and isinstance(n.value, ast.Name) and n.value.id == vv))]
     return gs[0].slice if len(gs) == 1 else None
 
 
+def _field_loop(target, it):
+    """(key variable, storage variable or None) when `for target in it` runs over the fields of self.buffer; None otherwise."""
+    if isinstance(it, ast.Call) and isinstance(it.func, ast.Name) and it.func.id in ("list", "tuple") and len(it.args) == 1 and not it.keywords:
+        return _field_loop(target, it.args[0])
+    kind = None
+    if dotted(it) == "self.buffer":
+        kind = "keys"
+    elif isinstance(it, ast.Call) and isinstance(it.func, ast.Attribute) and it.func.attr in ("keys", "items") and dotted(it.func.value) == "self.buffer" and not it.args and not it.keywords:
+        kind = it.func.attr
+    if kind == "keys" and isinstance(target, ast.Name):
+        return target.id, None
+    if kind == "items" and isinstance(target, (ast.Tuple, ast.List)) and len(target.elts) == 2 and all(isinstance(x, ast.Name) for x in target.elts):
+        return target.elts[0].id, target.elts[1].id
+    return None
+
+
 def _field_indices(cfg, stmts, fn):
-    """field name -> (index expression, CFG node at which to normalise it) for the statements of the no-intermediate branch."""
+    """field name -> (index expression, CFG node at which to normalise it) for the statements of one view of sample_batch."""
     out = {}
     env = {}   # locals of the branch that hold selection tables / per-key choices
 
     def node_of(st):
         return cfg.stmt_node[id(st)]
 
-    def run_body(body, k, kenv):
+    def run_body(body, k, kenv, kv, vv):
         for st in body:
             if isinstance(st, ast.If):
-                v = _const_test(st.test, k, kenv)
+                v = _const_test(st.test, k, kenv, kv)
                 if v is None:
                     raise AnalysisError(f"{CQ}.sample_batch: branch `{short(st.test, 50)}` inside the per-field loop does not only depend on the field name (unrecognised idiom)")
-                run_body(st.body if v else st.orelse, k, kenv)
+                run_body(st.body if v else st.orelse, k, kenv, kv, vv)
             elif isinstance(st, ast.Match):
-                subj = _const_test(ast.Compare(left=st.subject, ops=[ast.Eq()], comparators=[ast.Constant(value=k)]), k, kenv)
+                subj = _const_test(ast.Compare(left=st.subject, ops=[ast.Eq()], comparators=[ast.Constant(value=k)]), k, kenv, kv)
                 if subj is not True:
                     raise AnalysisError(f"{CQ}.sample_batch: `match {short(st.subject, 30)}` inside the per-field loop is not a match on the field name (unrecognised idiom)")
 
@@ -226,34 +187,118 @@ def _field_indices(cfg, stmts, fn):
                         chosen = case_
                         break
                 if chosen is not None:
-                    run_body(chosen.body, k, kenv)
+                    run_body(chosen.body, k, kenv, kv, vv)
             elif isinstance(st, (ast.For, ast.While, ast.Try, ast.With)):
                 raise AnalysisError(f"{CQ}.sample_batch: `{short(st, 50)}` inside the per-field loop (unrecognised idiom)")
             elif isinstance(st, ast.Assign) and len(st.targets) == 1:
                 t = st.targets[0]
-                ix = _gather_index(st.value)
+                ix = _gather_index(st.value, kv, vv)
                 if ix is not None:
-                    out[k] = (_specialise(ix, k, kenv), kenv.get("@at", node_of(st)))
+                    out[k] = (_specialise(ix, k, kenv, kv), kenv.get("@at", node_of(st)))
                 elif isinstance(t, ast.Name):
                     kenv[t.id] = st.value
                     kenv["@at"] = node_of(st)
     for st in stmts:
-        if isinstance(st, ast.For) and isinstance(st.target, ast.Name) and st.target.id == "k" and dotted(st.iter) in ("self.buffer", "self.buffer.keys()"):
+        fl = _field_loop(st.target, st.iter) if isinstance(st, ast.For) else None
+        if fl is not None:
             for k in _KEYS:
-                run_body(st.body, k, dict(env))
+                run_body(st.body, k, dict(env), fl[0], fl[1])
         elif isinstance(st, ast.Assign) and len(st.targets) == 1 and isinstance(st.targets[0], ast.Name) and isinstance(st.value, ast.Dict) and all(isinstance(x, ast.Constant) for x in st.value.keys if x is not None) \
                 and not any(isinstance(x, (ast.DictComp,)) for x in ast.walk(st.value)):
             env[st.targets[0].id] = st.value
+        elif isinstance(st, ast.Assign) and len(st.targets) == 1 and isinstance(st.targets[0], ast.Name) and isinstance(st.value, (ast.List, ast.Tuple, ast.Set)) and st.value.elts and all(isinstance(x, ast.Constant) and isinstance(x.value, str) for x in st.value.elts):
+            env[st.targets[0].id] = st.value     # a literal collection of field names used in `k in names`
         else:
             for dc in [x for x in ast.walk(st) if isinstance(x, ast.DictComp)]:
                 g = dc.generators[0]
-                if len(dc.generators) == 1 and isinstance(g.target, ast.Name) and g.target.id == "k" and dotted(g.iter) in ("self.buffer", "self.buffer.keys()") and not g.ifs:
-                    ix = _gather_index(dc.value)
+                fl = _field_loop(g.target, g.iter) if len(dc.generators) == 1 and not g.ifs else None
+                if fl is not None:
+                    ix = _gather_index(dc.value, fl[0], fl[1])
                     if ix is None:
                         continue
                     for k in _KEYS:
-                        out[k] = (_specialise(ix, k, env), node_of(st))
+                        out[k] = (_specialise(ix, k, env, fl[0]), node_of(st))
     return out
+
+
+_UNREAD = re.compile(r"φ\(|⟦|__i\d+|\biter\(|λ\[")
+
+
+def _unread(txt) -> bool:
+    """The canonical text contains something the engine did not read: a merge of definitions, an opaque construct, a temporary of the
+    helper expander, a loop variable."""
+    return bool(_UNREAD.search(str(txt)))
+
+
+def _toks(txt) -> set:
+    return set(re.findall(r"[A-Za-z_][A-Za-z_0-9]*", str(txt)))
+
+
+def _parse_canon(txt):
+    """AST of a canonical text (`and(..)` / `or(..)` become calls of and_ / or_); None when it is not an expression made of read parts."""
+    if _unread(txt):
+        return None
+    t = re.sub(r"\band\(", "and_(", str(txt))
+    t = re.sub(r"\bor\(", "or_(", t)
+    try:
+        return ast.parse(t, mode="eval").body
+    except SyntaxError:
+        return None
+
+
+class _Unk(Exception):
+    pass
+
+
+_TRANSPARENT = {"int", "bool", "float", "asarray", "array", "int64", "int32", "bool_", "squeeze", "item"}
+
+
+def _tv(e, asg, flag_of):
+    """Integer value of a canonical expression that only depends on the episode flags (asg: flag name -> 0 / 1); _Unk otherwise."""
+    if isinstance(e, ast.Constant) and isinstance(e.value, (bool, int)):
+        return int(e.value)
+    f = flag_of(e)
+    if f is not None:
+        return asg[f]
+    if isinstance(e, ast.UnaryOp):
+        v = _tv(e.operand, asg, flag_of)
+        if isinstance(e.op, ast.Not):
+            return int(not v)
+        if isinstance(e.op, ast.USub):
+            return -v
+        if isinstance(e.op, ast.UAdd):
+            return v
+        raise _Unk()
+    if isinstance(e, ast.BinOp) and isinstance(e.op, (ast.Add, ast.Sub, ast.Mult)):
+        x, y = _tv(e.left, asg, flag_of), _tv(e.right, asg, flag_of)
+        return x + y if isinstance(e.op, ast.Add) else x - y if isinstance(e.op, ast.Sub) else x * y
+    if isinstance(e, ast.Call) and not e.keywords and isinstance(e.func, (ast.Name, ast.Attribute)):
+        fn = e.func.id if isinstance(e.func, ast.Name) else e.func.attr
+        if isinstance(e.func, ast.Attribute) and fn in _TRANSPARENT | {"astype"}:
+            return _tv(e.func.value, asg, flag_of)       # x.astype(int), x.item()
+        args = e.args
+        if fn in ("ite", "where") and len(args) == 3:
+            return _tv(args[1], asg, flag_of) if _tv(args[0], asg, flag_of) else _tv(args[2], asg, flag_of)
+        if fn in ("and_", "logical_and", "or_", "logical_or") and args:
+            vs = [bool(_tv(x, asg, flag_of)) for x in args]
+            return int(all(vs) if fn in ("and_", "logical_and") else any(vs))
+        if fn in ("any", "all") and len(args) == 1 and isinstance(args[0], (ast.Tuple, ast.List)):
+            vs = [bool(_tv(x, asg, flag_of)) for x in args[0].elts]
+            return int(all(vs) if fn == "all" else any(vs))
+        if fn in ("logical_not", "invert") and len(args) == 1:
+            return int(not _tv(args[0], asg, flag_of))
+        if fn in _TRANSPARENT and len(args) == 1:
+            v = _tv(args[0], asg, flag_of)
+            return int(bool(v)) if fn in ("bool", "bool_") else v
+        if fn in ("Eq", "NotEq", "Lt", "LtE") and len(args) == 2:
+            x, y = _tv(args[0], asg, flag_of), _tv(args[1], asg, flag_of)
+            return int({"Eq": x == y, "NotEq": x != y, "Lt": x < y, "LtE": x <= y}[fn])
+    raise _Unk()
+
+
+_MASK_METHOD_READS = {"sum", "any", "all", "nonzero", "copy", "astype", "mean", "max", "min", "tolist", "item", "view"}
+_MASK_ARG_READS = {"nonzero", "flatnonzero", "count_nonzero", "sum", "any", "all", "where", "len", "asarray", "array", "argwhere", "print", "debug", "info", "warning", "isfinite", "array_equal", "repr", "str", "format"}
+_SELF_ARG_READS = {"type", "id", "repr", "str", "isinstance", "len", "hasattr", "getattr", "format", "print", "debug", "info", "warning"}
 
 
 def _add_sample_effects(ck, repo, nf):
@@ -261,9 +306,11 @@ def _add_sample_effects(ck, repo, nf):
 
     Every acyclic path entry -> return is evaluated symbolically (sympath.PathEval: environment of locals, store of attribute /
     subscript locations; helpers are already expanded, aliases disappear in the normal forms).  A path is summarised by: the ordered
-    mask stores (index, value), the final write position / length / episode counter, whether the episode-end condition and the
-    enabling condition hold on it.  The summaries are compared with the protocol; local names, statement order of independent
-    effects and helper structure do not matter."""
+    mask stores (slot, value), the final write position / length / episode counter, the truth assignments of the episode flags and the
+    bounds on episode_timesteps - horizon that its branch conditions admit.  Slots are compared as residues modulo buffer_size, flag
+    conditions by their truth tables, thresholds as integer bounds; local names, statement order of independent effects, helper
+    structure and the spelling of a condition do not matter.  A summary that disagrees with the protocol is a violation only when
+    every mask effect of the path was read (positive evidence: the path, the slot, the value); anything unread is undecided."""
     from ..sympath import enumerate_paths, PathEval
     from ..sem import _negate, _flatten_and
     fn = _m(repo, CQ, "add_sample")
@@ -275,41 +322,156 @@ def _add_sample_effects(ck, repo, nf):
     stops = {r.id for r in rets} or {cfg.exit}
     sc0 = Scope(None, mi, {}, site)
 
+    def P(txt):
+        e = _parse_canon(txt) if not isinstance(txt, ast.AST) else txt
+        if e is None:
+            return None
+        try:
+            return nf.poly(e, sc0, None)
+        except Exception:
+            return None
+
     def S(txt):
         return nf.poly(parse_expr(txt), sc0, None).canon()
+    # the sample arrives as **kwargs (documented) or, after a signature change, as explicit parameters named like the fields
+    KW = fn.args.kwarg.arg if fn.args.kwarg is not None else None
+    explicit = [p_ for p_ in param_names(fn) if p_ in _KEYS]
+    if KW is None and not {"terminated", "truncated"} <= set(explicit):
+        raise AnalysisError(f"{site}: the transition is neither passed as **kwargs nor as parameters named like the fields (unrecognised form)")
+
+    def fld(k):
+        return f"{KW}['{k}']" if KW is not None else k
+
+    def flag_of(e):
+        if KW is not None and isinstance(e, ast.Subscript) and isinstance(e.value, ast.Name) and e.value.id == KW and isinstance(e.slice, ast.Constant) and e.slice.value in ("terminated", "truncated"):
+            return e.slice.value
+        if KW is None and isinstance(e, ast.Name) and e.id in ("terminated", "truncated"):
+            return e.id
+        return None
     I0, N, H, ET, LEN = "self.insert_idx", "self.buffer_size", "self.horizon", "self.episode_timesteps", "self.current_len"
+
+    def residue_poly(p, depth=0):
+        """Representative of an index modulo buffer_size: (x % N + y) % N -> x + y, multiples of N dropped.  Two stores hit the same
+        slot iff their residues agree (numpy wraps a negative index the same way)."""
+        out = Poly.const(0)
+        for mono, c in p.terms.items():
+            if len(mono) == 1 and mono[0][1] == 1 and c.denominator == 1 and depth < 8:
+                a_ = mono[0][0]
+                m_ = nf.meta.get(a_) or {}
+                if m_.get("fn") in ("mod", "remainder") and len(m_.get("args", [])) == 2 and not m_.get("kws") and m_["args"][1].canon() == N:
+                    out = out + residue_poly(m_["args"][0], depth + 1).scale(c)
+                    continue
+                if a_ == N:
+                    continue
+            out = out + Poly({mono: c})
+        return out
+
+    def RES(txt):
+        p = P(txt)
+        return None if p is None else residue_poly(p).canon()
+
+    def reduced(txt):
+        """The index is written as `... % buffer_size` (lies in [0, N) whatever its argument)."""
+        p = P(txt)
+        m_ = nf.meta.get(p.single_atom() or "", {}) if p is not None else {}
+        return m_.get("fn") in ("mod", "remainder") and len(m_.get("args", [])) == 2 and m_["args"][1].canon() == N
     NEXT = S(f"({I0} + 1) % {N}")
-    NEXT2 = S(f"(({I0} + 1) % {N} + 1) % {N}")
-    END = {S("sample['terminated'] or sample['truncated']"), S("sample['truncated'] or sample['terminated']")}
+    NEXT2 = {S(f"(({I0} + 1) % {N} + 1) % {N}"), S(f"({I0} + 2) % {N}")}
+    DELTA = nf.poly(parse_expr(f"{ET} + 1 - {H}"), sc0, None)
     ENABLE_T = S(f"{ET} + 1 > {H}")
     ENABLE_IDX = S(f"({I0} - {H}) % {N}")
-    TAIL_IDX = {S(f"(({I0} + 1) % {N} - np.arange(min({ET} + 1, {H})) - 1) % {N}")}
-    TAIL_VAL = {nf.poly(parse_expr(x), sc0, None).canon() for x in ("0 if sample['truncated'] else 1", "1 - sample['truncated']", "not sample['truncated']", "int(not sample['truncated'])", "1 if not sample['truncated'] else 0")}
-    LEN1, LEN2 = S(f"min({LEN} + 1, {N})"), S(f"min(min({LEN} + 1, {N}) + 1, {N})")
+    TAIL_TXT = f"(({I0} + 1) % {N} - np.arange(min({ET} + 1, {H})) - 1) % {N}"
+    R_I0, R_NEXT, R_NEXT2, R_EN = RES(I0), RES(NEXT), RES(S(f"({I0} + 2) % {N}")), RES(ENABLE_IDX)
+    N_TAIL = S(f"min({ET} + 1, {H})")
+    LEN1 = {S(f"min({LEN} + 1, {N})")}
+    LEN2 = {S(f"min(min({LEN} + 1, {N}) + 1, {N})"), S(f"min({LEN} + 2, {N})")}
+    ET1 = S(f"{ET} + 1")
+    fields_ = _init_fields(repo, CQ)
+    ING = _toks(" ".join([I0, N, H, ET, LEN, NEXT, ENABLE_IDX, S(TAIL_TXT)])) | fields_
+
+    def evidence(txt) -> bool:
+        """The value was read completely and is built from the documented quantities only (combined differently)."""
+        return not _unread(txt) and _parse_canon(txt) is not None and _toks(txt) <= ING
     try:
         paths = enumerate_paths(cfg, cfg.entry, stops, max_paths=40000)
     except RuntimeError:
         raise AnalysisError(f"{site}: too many paths for the per-path evaluation")
+
+    def dark_call(st, pe):
+        """A call in statement ``st`` that may write mask_ in a way the path evaluation does not follow."""
+        for c in ast.walk(st):
+            if not isinstance(c, ast.Call):
+                continue
+            f = c.func
+            fname = f.attr if isinstance(f, ast.Attribute) else f.id if isinstance(f, ast.Name) else ""
+            if isinstance(f, ast.Attribute):
+                if isinstance(f.value, ast.Name) and f.value.id == "self":
+                    return f"`{short(c, 60)}` (a method that was not expanded)"
+                if isinstance(f.value, ast.Call) and isinstance(f.value.func, ast.Name) and f.value.func.id == "super":
+                    return f"`{short(c, 60)}` (inherited implementation)"
+                try:
+                    recv = pe.ev(f.value).canon()
+                except Exception:
+                    recv = ""
+                if recv == "self.mask_" and fname not in _MASK_METHOD_READS:
+                    return f"`{short(c, 60)}`"
+            for a in list(c.args) + [k.value for k in c.keywords]:
+                a = a.value if isinstance(a, ast.Starred) else a
+                try:
+                    av = pe.ev(a).canon()
+                except Exception:
+                    av = ""
+                if (av == "self" and fname not in _SELF_ARG_READS) or (av == "self.mask_" and fname not in _MASK_ARG_READS):
+                    return f"`{short(c, 60)}`"
+        return None
+    # locals that hold a list grown by concatenation / append: the normal forms add such lists up like numbers, an index read from
+    # one of them is not a slot expression
+    grown = set()
+    for x in ast.walk(fn):
+        if isinstance(x, ast.AugAssign) and isinstance(x.op, ast.Add) and isinstance(x.target, ast.Name) and isinstance(x.value, (ast.List, ast.Tuple, ast.Call, ast.ListComp)):
+            grown.add(x.target.id)
+        elif isinstance(x, ast.Assign) and any(isinstance(y, ast.BinOp) and isinstance(y.op, ast.Add) and any(isinstance(z, (ast.List, ast.Tuple, ast.ListComp)) for z in (y.left, y.right)) for y in ast.walk(x.value)):
+            grown |= {t_.id for t_ in x.targets if isinstance(t_, ast.Name)}
+        elif isinstance(x, ast.Call) and isinstance(x.func, ast.Attribute) and x.func.attr in ("append", "extend", "insert") and isinstance(x.func.value, ast.Name):
+            grown.add(x.func.value.id)
+
+    def dark_index(st, pe):
+        """A store into mask_ whose index is read from a grown list (or concatenates list displays itself)."""
+        for t_ in (st.targets if isinstance(st, ast.Assign) else [st.target] if isinstance(st, (ast.AugAssign, ast.AnnAssign)) else []):
+            if not isinstance(t_, ast.Subscript):
+                continue
+            names = {y.id for y in ast.walk(t_.slice) if isinstance(y, ast.Name)}
+            concat = any(isinstance(y, ast.BinOp) and isinstance(y.op, ast.Add) and any(isinstance(z, (ast.List, ast.Tuple, ast.ListComp)) for z in (y.left, y.right)) for y in ast.walk(t_.slice))
+            if not (names & grown or concat):
+                continue
+            try:
+                base = pe.ev(t_.value).canon()
+            except Exception:
+                base = ""
+            if base == "self.mask_":
+                return f"`{short(st, 60)}` (the index is a list built by concatenation)"
+        return None
     sums = {}
     for pth in paths:
         pe = PathEval(nf, cfg, mi, site, {})
         lits = []
+        dark = None
         for nid, lab in pth[:-1]:
             nd = cfg.nodes[nid]
             if nd.kind == "test" and lab in (True, False) and hasattr(nd.ast, "test") and isinstance(nd.ast, ast.If):
                 c = pe.ev(nd.ast.test).canon()
                 lits += _flatten_and(c) if lab else [_negate(c)]
+            if nd.kind == "stmt" and nd.ast is not None and dark is None:
+                dark = dark_call(nd.ast, pe) or dark_index(nd.ast, pe)
             pe.step(nid, lab)
+        if dark is None and "self.mask_" in pe.store:
+            dark = "mask_ is rebound"
+        if dark is None and any(b == "self.mask_" and ix is None for _, b, ix, _v in pe.effects):
+            dark = "a store into mask_ at an index that could not be evaluated"
         masks = tuple((ix, v.canon()) for _, b, ix, v in pe.effects if b == "self.mask_" and ix is not None)
+        obs = tuple((ix, v.canon()) for _, b, ix, v in pe.effects if b == "self.buffer['observation']" and ix is not None)
         fin = tuple(pe.store[x].canon() if x in pe.store else x for x in (I0, LEN, ET))
-        ended = any(l in END for l in lits) or any(l.startswith("or(") and "terminated" in l and "truncated" in l for l in lits)
-        not_ended = any(l in {f"not({e})" for e in END} for l in lits) or (any("not(sample['terminated'])" == l for l in lits) and any("not(sample['truncated'])" == l for l in lits))
-        a_, b_ = S(f"{ET} + 1"), H
-        rel = [l for l in lits if l in (f"Lt({b_}, {a_})", f"LtE({b_}, {a_})", f"Lt({a_}, {b_})", f"LtE({a_}, {b_})", f"Eq({a_}, {b_})", f"Eq({b_}, {a_})")]
-        enable = f"Lt({b_}, {a_})" in rel                                   # the path condition implies episode_timesteps' > horizon
-        no_enable = f"LtE({a_}, {b_})" in rel or f"Lt({a_}, {b_})" in rel    # ... implies episode_timesteps' <= horizon
-        weak = tuple(r for r in rel if r in (f"LtE({b_}, {a_})", f"Eq({a_}, {b_})", f"Eq({b_}, {a_})"))
-        sums.setdefault((masks, fin, ended, not_ended, enable, no_enable, weak), tuple(sorted(set(lits))))
+        sums.setdefault((masks, fin, tuple(sorted(set(lits))), dark, obs), None)
     ck.count("add_sample-paths", len(paths))
     ck.count("add_sample-effect-summaries", len(sums))
     if len(sums) < 2:
@@ -321,104 +483,301 @@ def _add_sample_effects(ck, repo, nf):
             return
         seen_keys.add((rule, key, ok))
         ck.ob(rule, site, key, ok, construct, "" if ok else why, where)
-    for (masks, fin, ended, not_ended, enable, no_enable, weak), lits in sorted(sums.items(), key=lambda kv: str(kv[0])):
+    _lit_cache = {}
+
+    def lit_value(l, asg):
+        """Truth of a path literal under a flag assignment; None: it does not speak about the flags; _Unk: it does, unreadably."""
+        k_ = (l, asg["terminated"], asg["truncated"])
+        if k_ not in _lit_cache:
+            e = _parse_canon(l)
+            try:
+                if e is None:
+                    raise _Unk()
+                _lit_cache[k_] = bool(_tv(e, asg, flag_of))
+            except _Unk:
+                _lit_cache[k_] = _Unk if ("terminated" in l or "truncated" in l) else None    # any mention of a flag that is not evaluable: the path cannot be summarised
+        return _lit_cache[k_]
+
+    def flag_worlds(lits):
+        out = []
+        for T in (0, 1):
+            for D in (0, 1):
+                asg = {"truncated": T, "terminated": D}
+                vs = [lit_value(l, asg) for l in lits]
+                if any(v is _Unk for v in vs):
+                    return None
+                if all(v is None or v for v in vs):
+                    out.append(asg)
+        return out
+
+    def delta_bounds(lits):
+        """Integer bounds lb <= episode_timesteps' - horizon <= ub that the path literals state (None: unbounded); third result: a
+        literal speaks about the counter / the horizon in a form that is not such a bound."""
+        lb = ub = None
+        unparsed = False
+        for l in lits:
+            if not (_toks(l) & {"episode_timesteps", "horizon"}):
+                continue
+            e = _parse_canon(l)
+            neg = False
+            while isinstance(e, ast.UnaryOp) and isinstance(e.op, ast.Not):
+                e, neg = e.operand, not neg
+            if not (isinstance(e, ast.Call) and isinstance(e.func, ast.Name) and e.func.id in ("Lt", "LtE", "Eq") and len(e.args) == 2 and not e.keywords) or (e.func.id == "Eq" and neg):
+                unparsed = True
+                continue
+            L_, R_ = P(e.args[0]), P(e.args[1])
+            if L_ is None or R_ is None:
+                unparsed = True
+                continue
+            cons = []   # (poly, k):  poly >= k
+            if e.func.id == "Eq":
+                cons = [(R_ - L_, 0), (L_ - R_, 0)]
+            else:
+                k_ = 1 if e.func.id == "Lt" else 0
+                cons = [(R_ - L_, k_)] if not neg else [(L_ - R_, 1 - k_)]
+            for p_, k_ in cons:
+                up, dn = p_ - DELTA, p_ + DELTA
+                if up.is_const() and up.const_value().denominator == 1:
+                    v_ = k_ - int(up.const_value())
+                    lb = v_ if lb is None else max(lb, v_)
+                elif dn.is_const() and dn.const_value().denominator == 1:
+                    v_ = int(dn.const_value()) - k_
+                    ub = v_ if ub is None else min(ub, v_)
+                else:
+                    unparsed = True
+        return lb, ub, unparsed
+
+    def split_effects(masks, worlds):
+        """One record (residue, value, position, index text) per written slot; a literal vector of slots counts element-wise.  A value
+        that is the same constant under every flag assignment of the path is that constant (`1 if True else 0`)."""
+        out = []
+        for pos, (ix, v) in enumerate(masks):
+            p = P(str(ix).replace(")[::-1]", ")"))     # one scalar is stored into every listed slot: their order does not matter
+            if p is None or _unread(v):
+                raise AnalysisError(f"{site}: mask store `mask_[{str(ix)[:80]}] = {v[:40]}` (unrecognised form)")
+            if v not in ("0", "1"):
+                try:
+                    ve = _parse_canon(v)
+                    vals = {_tv(ve, w, flag_of) for w in worlds} if ve is not None else set()
+                    if len(vals) == 1 and vals <= {0, 1}:
+                        v = str(vals.pop())
+                except _Unk:
+                    pass
+            for q in (p.elems if p.elems is not None else [p]):
+                rq = residue_poly(q)
+                out.append((rq.canon(), v, pos, q.canon(), tail_shape(rq)))
+        return out
+
+    def tail_shape(rp):
+        """(newest slot, number of slots) of a run of consecutive slots `base - arange(n)` / `base + arange(n)` (the same set of slots
+        whichever way it is enumerated); None for a single slot; AnalysisError for any other use of arange."""
+        ar = [(mono, c) for mono, c in rp.terms.items() if any("arange(" in a_ for a_, _ in mono)]
+        if not ar:
+            return None
+        mono, c = ar[0]
+        m_ = nf.meta.get(mono[0][0]) or {}
+        if len(ar) != 1 or len(mono) != 1 or mono[0][1] != 1 or c not in (1, -1) or m_.get("fn") != "arange" or len(m_.get("args", [])) != 1 or m_.get("kws"):
+            raise AnalysisError(f"{site}: mask store at the slots `{rp.canon()[:100]}` (unrecognised form)")
+        n_ = m_["args"][0]
+        base = rp - Poly({mono: c})
+        top = base if c == -1 else base + n_ - Poly.const(1)
+        return top.canon(), n_.canon()
+
+    def relates(lits, var):
+        """A branch condition of the path relates ``var`` to the capacity: the final value is only meant for that case."""
+        return any(var in _toks(l) and "buffer_size" in _toks(l) for l in lits)
+    obs_seen = False
+    for (masks, fin, lits, dark, obs), _ in sorted(sums.items(), key=lambda kv: str(kv[0])):
+        if not masks and not obs and fin == (I0, LEN, ET) and dark is None:
+            continue   # a path without effects (e.g. an early exception exit)
+        if dark is not None:
+            raise AnalysisError(f"{site}: mask_ may be written through {dark}, which the path evaluation does not follow (unrecognised form)")
+        worlds = flag_worlds(lits)
+        if worlds is None:
+            raise AnalysisError(f"{site}: a branch condition on the episode flags is not readable as a truth table (literals {list(lits)[:4]}) (unrecognised form)")
+        if not worlds:
+            continue   # contradictory flag conditions: not a run of the program
+        ended = all(w["terminated"] or w["truncated"] for w in worlds)
+        not_ended = all(not w["terminated"] and not w["truncated"] for w in worlds)
         if ended == not_ended:
-            # the path does not pass the episode-end test in a recognised form
-            if not masks and fin == (I0, LEN, ET):
-                continue   # a path without effects (e.g. an early exception exit)
             raise AnalysisError(f"{site}: a path with mask effects {masks[:2]} is not classified by the episode-end condition (literals {list(lits)[:4]})")
+        if any("insert_idx" in _toks(l) for l in lits):
+            # slots are compared as expressions over the entry write position: a path that is only taken for some write positions
+            # (`if self.insert_idx == self.buffer_size: ...`) is not summarised by them
+            raise AnalysisError(f"{site}: a branch condition depends on the write position ({[l for l in lits if 'insert_idx' in _toks(l)][:2]}) (unrecognised form)")
+        effs = split_effects(masks, worlds)
+        lb, ub, unparsed = delta_bounds(lits)
+        enable, no_enable = lb is not None and lb >= 1, ub is not None and ub <= 0
+        if enable and no_enable:
+            continue   # contradictory threshold conditions
+        # min(episode_timesteps', horizon) is horizon where episode_timesteps' >= horizon and episode_timesteps' where it is <= horizon
+        n_forms = {N_TAIL} | ({H} if lb is not None and lb >= 0 else set()) | ({ET1} if ub is not None and ub <= 0 else set())
+        scalar1 = [e_ for e_ in effs if e_[1] == "1" and e_[4] is None]
         if enable == no_enable:
-            if weak and any(m[1] == "1" for m in masks):
-                ob("R2-enable-offset-agreement", "offset-equals-threshold", False, f"a start index is enabled under {list(weak)}",
+            if lb is not None and lb <= 0 and not unparsed and scalar1:
+                ob("R2-enable-offset-agreement", "offset-equals-threshold", False, f"a start index is enabled at {scalar1[0][3]} under episode_timesteps' - horizon >= {lb} ({[l for l in lits if 'episode_timesteps' in l][:2]})",
                    "the enabling condition does not imply episode_timesteps > horizon (off by one): a window starting there reaches back one step into the previous episode")
                 continue
             raise AnalysisError(f"{site}: a path is not classified by the enabling condition episode_timesteps > horizon (literals {list(lits)[:4]})")
         tag = ("end" if ended else "step") + ("+enable" if enable else "")
-        idxs = [m[0] for m in masks]
-        # R1: the written slot is cleared, and it is the first mask effect on that slot
-        clear_pos = [k for k, m in enumerate(masks) if m == (I0, "0")]
-        ob("R1-mask-clear-on-write", "clear-transition-slot", bool(clear_pos) and idxs.index(I0) == clear_pos[0], f"[{tag}] mask effects {list(masks)[:5]}",
+        shown = [(e_[3], e_[1]) for e_ in effs]
+        # every effect is given its role by the slot it hits; anything else must at least be made of the documented quantities
+        clears = [e_ for e_ in effs if e_[0] == R_I0 and e_[1] == "0"]
+        starts = [e_ for e_ in effs if e_[0] == R_EN]
+        succ = [e_ for e_ in effs if e_[0] == R_NEXT and R_NEXT != R_I0]
+        tails = [e_ for e_ in effs if e_[4] is not None and e_[4][0] == R_I0 and e_[4][1] in n_forms]
+        known = {id(e_) for e_ in clears + starts + succ + tails}
+        other = [e_ for e_ in effs if id(e_) not in known]
+        for e_ in other:
+            if not evidence(e_[3]) or e_[1] not in ("0", "1") and not (ended and e_[4] is not None):
+                raise AnalysisError(f"{site}: mask store `mask_[{e_[3][:100]}] = {e_[1][:40]}` on a [{tag}] path (unrecognised form)")
+        for e_ in starts + succ:
+            if e_[1] not in ("0", "1"):
+                raise AnalysisError(f"{site}: mask store `mask_[{e_[3][:100]}] = {e_[1][:40]}` on a [{tag}] path (unrecognised form)")
+        # R1: the written slot is cleared
+        ob("R1-mask-clear-on-write", "clear-transition-slot", bool(clears), f"[{tag}] mask effects {shown[:5]}",
            "the slot being overwritten must be removed from the valid start indices (mask_[insert_idx] = 0 with the pre-advance index): otherwise windows cross the write position into overwritten data")
         # R2: enabling store
-        ones = [m for m in masks if m[1] == "1"]
+        ones = [e_ for e_ in effs if e_[1] == "1" and e_[4] is None]
+        shown1 = [(e_[3], e_[1]) for e_ in ones]
         if enable:
-            ok = ones == [(ENABLE_IDX, "1")]
-            ob("R2-enable-offset-agreement", "offset-equals-threshold", ok, f"[{tag}] enabling stores {ones} under {ENABLE_T}",
+            ok = bool(ones) and all(e_[0] == R_EN for e_ in ones)
+            if not ones and (unparsed or lb != 1):
+                raise AnalysisError(f"{site}: no start is enabled on a path with episode_timesteps' - horizon >= {lb} (unrecognised form)")
+            ob("R2-enable-offset-agreement", "offset-equals-threshold", ok, f"[{tag}] enabling stores {shown1} under {ENABLE_T}",
                f"once the episode is longer than the horizon exactly the start `horizon` steps behind the write position becomes valid (expected {ENABLE_IDX}): offset and threshold must both be self.horizon")
         else:
             ok = not ones
-            ob("R2-enable-offset-agreement", "no-enable-below-threshold", ok, f"[{tag}] enabling stores {ones} under not({ENABLE_T})",
+            ob("R2-enable-offset-agreement", "no-enable-below-threshold", ok, f"[{tag}] enabling stores {shown1} under not({ENABLE_T})",
                "a start index is enabled although the episode is not yet longer than the horizon: its window reaches back into the previous episode")
-        extra = [m for m in masks if m not in ((I0, "0"), (ENABLE_IDX, "1"))]
+
+        def final(rule, key, got, accepted, res_want, var, what, why):
+            """The final value of a state variable: accepted spellings; a differing value is evidence when it was read completely, is
+            made of the documented quantities and no branch condition of the path restricts the case it is meant for."""
+            if got in accepted:
+                return ob(rule, key, True, f"[{tag}] {what}' = {got}", "")
+            if res_want is not None and RES(got) == res_want and reduced(got):
+                return ob(rule, key, True, f"[{tag}] {what}' = {got}", "")
+            if not evidence(got) or relates(lits, var) or (res_want is not None and RES(got) == res_want):
+                raise AnalysisError(f"{site}: {what}' = `{got[:100]}` on a [{tag}] path under {[l for l in lits if var in _toks(l)][:2]} (unrecognised form)")
+            ob(rule, key, False, f"[{tag}] {what}' = {got}", why)
         if not ended:
-            ob("R3-tail", "no-tail-before-episode-end", not extra, f"[{tag}] other mask effects {extra}", "mask entries other than the written slot and the horizon-delayed start change although the episode goes on")
-            ob("R1-mask-clear-on-write", "advance:main", fin[0] == NEXT, f"[{tag}] insert_idx' = {fin[0]}", "the write position must advance by one modulo the capacity")
-            ob("R1-mask-clear-on-write", "length-per-written-row", fin[1] == LEN1, f"[{tag}] current_len' = {fin[1]}", "each written row increases the length, saturating at the capacity")
-            ob("R2-enable-offset-agreement", "episode-counter", fin[2] == S(f"{ET} + 1"), f"[{tag}] episode_timesteps' = {fin[2]}", "episode_timesteps must count this step (exactly +1)")
+            extra = [e_ for e_ in effs if e_ not in clears and e_ not in starts]
+            ob("R3-tail", "no-tail-before-episode-end", not extra, f"[{tag}] other mask effects {[(e_[3], e_[1]) for e_ in extra]}", "mask entries other than the written slot and the horizon-delayed start change although the episode goes on")
+            final("R1-mask-clear-on-write", "advance:main", fin[0], {NEXT}, R_NEXT, "insert_idx", "insert_idx", "the write position must advance by one modulo the capacity")
+            final("R1-mask-clear-on-write", "length-per-written-row", fin[1], LEN1, None, "current_len", "current_len", "each written row increases the length, saturating at the capacity")
+            final("R2-enable-offset-agreement", "episode-counter", fin[2], {ET1}, None, "\0", "episode_timesteps", "episode_timesteps must count this step (exactly +1)")
         else:
-            succ_clear = [m for m in extra if m[0] in (NEXT, S(f"(({I0} + 1) % {N}) % {N}")) and m[1] == "0"]
-            ob("R1-mask-clear-on-write", "clear-successor-row", len(succ_clear) == 1, f"[{tag}] successor-row clear {succ_clear}", "the extra successor row written at an episode end must be excluded from the start indices")
-            tails = [m for m in extra if m not in succ_clear]
-            if len(tails) != 1:
-                raise AnalysisError(f"{site}: {len(tails)} tail effects on an episode-end path ({tails[:3]}): the vectorised tail store was restructured (unrecognised idiom)")
-            tidx, tval = tails[0]
-            okv = tval in TAIL_VAL
-            if not okv and "truncated" in tval and "terminated" not in tval and not tval.startswith("ite(") and tval != "sample['truncated']":
-                raise AnalysisError(f"{site}: tail value `{tval}` not recognised")
-            ob("R3-tail", "truncated-disables", okv, f"[{tag}] tail value = {tval}", "truncated tails must be masked out (0), terminated tails enabled (1)")
-            if tidx not in TAIL_IDX:
-                import re as _re
-                toks = lambda t_: set(_re.findall(r"[A-Za-z_][A-Za-z_0-9]*", t_))
-                fields_ = {t_.attr for c_ in repo.mro(CQ) for m_ in [repo.method(c_, "__init__", inherited=False)] if m_ for x_ in ast.walk(m_[1]) if isinstance(x_, ast.Assign)
-                           for t_ in x_.targets if isinstance(t_, ast.Attribute) and dotted(t_.value) == "self"}
-                if not toks(tidx) <= set().union(*[toks(t_) for t_ in TAIL_IDX]) | fields_:
-                    raise AnalysisError(f"{site}: tail index `{tidx[:120]}` (unrecognised form)")
-            ob("R3-tail", "last-min(len,horizon)-slots", tidx in TAIL_IDX, f"[{tag}] tail index = {tidx}", f"must be the last min(episode_timesteps, horizon) written slots: {sorted(TAIL_IDX)[0]}")
+            succ_clear = [e_ for e_ in succ if e_[1] == "0"]
+            ob("R1-mask-clear-on-write", "clear-successor-row", bool(succ_clear), f"[{tag}] successor-row clear {[(e_[3], e_[1]) for e_ in succ_clear]}", "the extra successor row written at an episode end must be excluded from the start indices")
+            cand = [e_ for e_ in effs if e_[4] is not None]
+            if len({e_[2] for e_ in cand}) != 1:
+                raise AnalysisError(f"{site}: {len(cand)} tail effects on an episode-end path ({[(e_[3], e_[1]) for e_ in cand][:3]}): the vectorised tail store was restructured (unrecognised idiom)")
+            _tres, tval, pos_tail, tidx, (ttop, tn) = cand[0]
+            tail_ok = cand[0] in tails
+            # the value as a function of the flags, on the flag assignments this path admits
+            te = _parse_canon(tval)
+            wrong = None
+            for w in worlds:
+                try:
+                    if te is None:
+                        raise _Unk()
+                    gv = _tv(te, w, flag_of)
+                except _Unk:
+                    raise AnalysisError(f"{site}: tail value `{tval[:100]}` is not readable as a function of the episode flags (unrecognised form)")
+                if gv not in (0, 1):
+                    raise AnalysisError(f"{site}: tail value `{tval[:100]}` (unrecognised form)")
+                if gv != (0 if w["truncated"] else 1):
+                    wrong = (w, gv)
+            if wrong is not None:
+                # the flag assignments were enumerated from the conditions that could be evaluated; a condition on the transition
+                # that could not (a helper applied to it, a membership test) may exclude exactly the assignment that looks wrong
+                unread_conds = [l for l in lits if (set(explicit) | ({KW} if KW else set())) & _toks(l) and all(lit_value(l, w_) is None for w_ in worlds)]
+                if unread_conds:
+                    raise AnalysisError(f"{site}: tail value `{tval[:60]}` under the condition(s) {unread_conds[:2]} on the transition (unrecognised form)")
+            ob("R3-tail", "truncated-disables", wrong is None, f"[{tag}] tail value = {tval}" + (f"; writes {wrong[1]} when terminated={wrong[0]['terminated']}, truncated={wrong[0]['truncated']}" if wrong else ""),
+               "truncated tails must be masked out (0), terminated tails enabled (1)")
+            if not tail_ok and (unparsed or not evidence(tidx)):
+                raise AnalysisError(f"{site}: tail index `{tidx[:120]}` (unrecognised form)")
+            ob("R3-tail", "last-min(len,horizon)-slots", tail_ok, f"[{tag}] tail index = {tidx}: {tn} slots, the newest is {ttop}", f"must be the last min(episode_timesteps, horizon) written slots: {S(TAIL_TXT)}")
             # the clear of the written slot precedes the tail store (which may re-enable that very slot)
-            pos_tail = masks.index(tails[0])
-            ob("R3-tail", "tail-after-clear", bool(clear_pos) and clear_pos[0] < pos_tail, f"[{tag}] clear at effect {clear_pos[:1]}, tail at effect {pos_tail}", "the tail must be marked after the written slot was cleared, otherwise the clear wipes the last start of a terminated episode")
-            ob("R1-mask-clear-on-write", "advance:tail", fin[0] == NEXT2, f"[{tag}] insert_idx' = {fin[0]}", "at an episode end the write position must advance by two rows (transition + successor row) modulo the capacity")
-            ob("R1-mask-clear-on-write", "length-per-written-row", fin[1] == LEN2, f"[{tag}] current_len' = {fin[1]}", "each written row (incl. the successor row) increases the length, saturating at the capacity")
-            ob("R3-tail", "episode-counter-reset", fin[2] == "0", f"[{tag}] episode_timesteps' = {fin[2]}", "episode_timesteps must be reset to 0 at the episode end")
-    # successor row content: observation <- next_observation at the slot after the transition (path evaluation of the buffer stores)
-    ok_succ = None
-    for pth in paths:
-        pe = PathEval(nf, cfg, mi, site, {}).run(pth[:-1])
-        obs_eff = [(ix, v.canon()) for _, b, ix, v in pe.effects if b == "self.buffer['observation']" and ix != I0]
-        if obs_eff:
-            # the last store to the successor row's observation decides its content
-            ok_succ = (ok_succ is None or ok_succ) and all(ix in (NEXT, S(f"(({I0} + 1) % {N}) % {N}")) for ix, _ in obs_eff) and obs_eff[-1][1] == "sample['next_observation']"
-    if ok_succ is None:
+            if clears:
+                late = [e_ for e_ in clears if e_[2] > pos_tail]
+                ob("R3-tail", "tail-after-clear", not late, f"[{tag}] clear at effect {[e_[2] for e_ in clears]}, tail at effect {pos_tail}", "the tail must be marked after the written slot was cleared, otherwise the clear wipes the last start of a terminated episode")
+            extra = [e_ for e_ in other if e_ not in cand]
+            if extra:
+                ob("R3-tail", "no-other-mask-effects", False, f"[{tag}] other mask effects {[(e_[3], e_[1]) for e_ in extra]}", "mask entries other than the written slot, the successor row, the horizon-delayed start and the episode tail change at an episode end")
+            final("R1-mask-clear-on-write", "advance:tail", fin[0], NEXT2, R_NEXT2, "insert_idx", "insert_idx", "at an episode end the write position must advance by two rows (transition + successor row) modulo the capacity")
+            final("R1-mask-clear-on-write", "length-per-written-row", fin[1], LEN2, None, "current_len", "current_len", "each written row (incl. the successor row) increases the length, saturating at the capacity")
+            final("R3-tail", "episode-counter-reset", fin[2], {"0"}, None, "\0", "episode_timesteps", "episode_timesteps must be reset to 0 at the episode end")
+            # successor row content: observation <- next_observation at the slot after the transition
+            so = []
+            for ix, v in obs:
+                r_ = RES(ix)
+                if r_ is None or _unread(v):
+                    raise AnalysisError(f"{site}: store `buffer['observation'][{str(ix)[:60]}] = {v[:40]}` (unrecognised form)")
+                if r_ != R_I0:
+                    so.append((r_, ix, v))
+            if so:
+                obs_seen = True
+                r_, ix, v = so[-1]   # the last store to the successor row's observation decides its content
+                bad_slot = [x for x in so if x[0] != R_NEXT]
+                if bad_slot and not all(evidence(x[1]) for x in bad_slot):
+                    raise AnalysisError(f"{site}: store `buffer['observation'][{bad_slot[0][1][:60]}]` (unrecognised form)")
+                good_val = v == fld("next_observation")
+                if not good_val and v not in {fld(k_) for k_ in _KEYS}:
+                    raise AnalysisError(f"{site}: successor row observation <- `{v[:80]}` (unrecognised form)")
+                ob("R3-tail", "successor-row-content", good_val and not bad_slot, f"[{tag}] buffer['observation'][{ix}] <- {v}",
+                   "the extra row after an episode end must hold the final successor observation at the slot following the last transition (it is what next_observation of the last window reads)")
+    if not obs_seen:
         raise AnalysisError(f"{site}: the store of the successor row's observation was not found (unrecognised idiom)")
-    ck.ob("R3-tail", site, "successor-row-content", ok_succ, "observation of the extra row <- next_observation at (insert_idx + 1) % buffer_size",
-          "" if ok_succ else "the extra row after an episode end must hold the final successor observation at the slot following the last transition (it is what next_observation of the last window reads)", where)
 
 
 def run(ck, repo: Repo, tier: str):
     nf = NF(repo, inline_depth=1, inline_calls=False)
-    mi = repo.cls(CQ)._module
     ck.guard(_add_sample_effects, ck, repo, nf)
-    ck.guard(_sampling_rules, ck, repo, nf)
+    ck.guard(_uniform_start, ck, repo, nf)
+    ck.guard(_prioritised_start, ck, repo, nf)
+    ck.guard(_views, ck, repo, nf)
 
 
-def _sampling_rules(ck, repo, nf):
-    mi = repo.cls(CQ)._module
-    # ---- R4 ------------------------------------------------------------------------------------------------------
+def _init_fields(repo, cq) -> set:
+    """Attributes of self that a constructor along the class's MRO assigns (the documented state of the buffer)."""
+    return {t_.attr for c_ in repo.mro(cq) for m_ in [repo.method(c_, "__init__", inherited=False)] if m_ for x_ in ast.walk(m_[1]) if isinstance(x_, (ast.Assign, ast.AnnAssign, ast.AugAssign))
+            for t_ in (x_.targets if isinstance(x_, ast.Assign) else [x_.target]) if isinstance(t_, ast.Attribute) and dotted(t_.value) == "self"}
+
+
+def _own_params(fn) -> list:
+    """Parameter names in signature order (keyword-only ones included) without self / *args / **kwargs: a role is a position here."""
+    skip = {fn.args.vararg.arg if fn.args.vararg else None, fn.args.kwarg.arg if fn.args.kwarg else None}
+    ps = [p_ for p_ in param_names(fn) if p_ not in skip]
+    return ps[1:] if ps and ps[0] in ("self", "cls") else ps
+
+
+def _uniform_start(ck, repo, nf):
+    # ---- R4 (uniform) --------------------------------------------------------------------------------------------
     f2 = _m(repo, CQ, "_sample_idx")
+    mi = f2._module
+    site = CQ + "._sample_idx"
     c2 = nf.cfg_of(f2)
     rets = [n for n in c2.nodes if n.kind == "stmt" and isinstance(n.ast, ast.Return)]
-    ck.need(len(rets) == 1, f"{CQ}._sample_idx: {len(rets)} returns (unrecognised idiom)")
-    s2 = Scope(c2, mi, {p: Poly.atom(p, {p}, {p}) for p in positional_params(f2)}, CQ + "._sample_idx")
+    ck.need(len(rets) == 1, f"{site}: {len(rets)} returns (unrecognised idiom)")
+    pp_ = _own_params(f2)
+    ck.need(len(pp_) >= 2, f"{site}: signature {pp_} has no (batch size, generator) pair (unrecognised form)")
+    s2 = Scope(c2, mi, {p: Poly.atom(p, {p}, {p}) for p in param_names(f2)}, site)
     got = nf.poly(rets[0].ast.value, s2, rets[0].id).canon()
-    # the documented draw, in the spellings numpy offers for "indices of the non-zero entries", "their number" and "element i of"
-    pp_ = [p_ for p_ in positional_params(f2) if p_ != "self"]
-    B_, R_ = (pp_ + ["batch_size", "rng"])[:2]
-    sets_ = ["np.nonzero(self.mask_)[0]", "np.flatnonzero(self.mask_)", "np.where(self.mask_)[0]", "np.where(self.mask_ != 0)[0]", "np.flatnonzero(self.mask_ != 0)", "np.nonzero(self.mask_ != 0)[0]", "np.where(self.mask_ > 0)[0]", "np.flatnonzero(self.mask_ > 0)"]
+    # the documented draw, in the spellings numpy offers for "indices of the non-zero entries", "their number" and "element i of";
+    # the batch size and the generator are the first two parameters, whatever they are called
+    B_, R_ = pp_[:2]
+    sets_ = []
+    for M_ in ("self.mask_", "self.mask_ != 0", "self.mask_ > 0", "self.mask_ == 1", "self.mask_.astype(bool)", "self.mask_ >= 1"):
+        sets_ += [f"np.nonzero({M_})[0]", f"np.flatnonzero({M_})", f"np.where({M_})[0]", f"np.argwhere({M_}).ravel()", f"np.argwhere({M_})[:, 0]", f"np.argwhere({M_}).flatten()"]
     wants = set()
-    sc_w = Scope(None, mi, s2.env, CQ + "._sample_idx")
+    sc_w = Scope(None, mi, s2.env, site)
     for E_ in sets_:
         for N_ in (f"len({E_})", f"{E_}.size", f"{E_}.shape[0]"):
-            for draw in (f"{R_}.integers(0, {N_}, size={B_})", f"{R_}.integers(0, {N_}, {B_})", f"{R_}.integers({N_}, size={B_})", f"{R_}.integers(low=0, high={N_}, size={B_})"):
+            for draw in (f"{R_}.integers(0, {N_}, size={B_})", f"{R_}.integers(0, {N_}, {B_})", f"{R_}.integers({N_}, size={B_})", f"{R_}.integers(low=0, high={N_}, size={B_})",
+                         f"{R_}.integers(0, {N_} - 1, size={B_}, endpoint=True)", f"{R_}.integers({N_} - 1, size={B_}, endpoint=True)"):
                 for form in (f"{E_}[{draw}]", f"np.take({E_}, {draw})", f"{E_}.take({draw})"):
                     try:
                         wants.add(nf.poly(parse_expr(form), sc_w, None).canon())
@@ -429,148 +788,268 @@ def _sampling_rules(ck, repo, nf):
                 wants.add(nf.poly(parse_expr(form), sc_w, None).canon())
             except Exception:
                 pass
-    want = "nonzero(self.mask_)[0][rng.integers(0, len(nonzero(self.mask_)[0]), size=batch_size)]"
-    if got == want or got in wants:
-        ck.ob("R4-start-from-mask", CQ + "._sample_idx", "uniform-over-enabled", True, f"return {got}", "", loc(mi, f2))
-    else:
-        # a cached / derived attribute instead of the live mask? then every writer of mask_ must refresh it (derived-state coherence)
-        attrs = sorted({x.attr for x in ast.walk(f2) if isinstance(x, ast.Attribute) and isinstance(x.ctx, ast.Load) and dotted(x.value) == "self" and x.attr not in ("mask_",)})
-        cls = repo.cls(CQ)
-        derived = []
-        for a in attrs:
-            for meth in cls.body:
-                if isinstance(meth, ast.FunctionDef):
-                    for x in ast.walk(meth):
-                        if isinstance(x, ast.Assign) and any(dotted(t) == f"self.{a}" for t in x.targets) and "self.mask_" in ast.unparse(x.value):
-                            derived.append(a)
-        derived = sorted(set(derived))
-        if derived:
-            stale = []
+    if got in wants:
+        ck.ob("R4-start-from-mask", site, "uniform-over-enabled", True, f"return {got}", "", loc(mi, f2))
+        return
+    # a cached / derived attribute instead of the live mask? then every writer of mask_ must refresh it (derived-state coherence)
+    attrs = sorted({x.attr for x in ast.walk(f2) if isinstance(x, ast.Attribute) and isinstance(x.ctx, ast.Load) and dotted(x.value) == "self" and x.attr not in ("mask_",)})
+    classes = [repo.cls(c_) for c_ in repo.mro(CQ)]
+
+    def mentions_mask(e):
+        return any(isinstance(x, ast.Attribute) and x.attr == "mask_" and dotted(x.value) == "self" for x in ast.walk(e))
+    derived = sorted({a for a in attrs for cls in classes for meth in cls.body if isinstance(meth, ast.FunctionDef) for x in ast.walk(meth)
+                      if isinstance(x, ast.Assign) and any(dotted(t) == f"self.{a}" for t in x.targets) and mentions_mask(x.value)})
+    if derived:
+        stale = []
+        for cls in classes:
             for meth in cls.body:
                 if not isinstance(meth, ast.FunctionDef):
                     continue
-                meth._module = mi
+                meth._module = cls._module
                 mc = nf.cfg_of(meth)
+                # a write of any attribute that _sample_idx reads (the cache itself, a dirty flag, a version counter) counts as a refresh
+                refresh = {m.id for m in mc.nodes if m.kind == "stmt" and isinstance(m.ast, (ast.Assign, ast.AugAssign, ast.AnnAssign, ast.Delete))
+                           and any(dotted(t) in {f"self.{a}" for a in attrs} for t in (m.ast.targets if isinstance(m.ast, (ast.Assign, ast.Delete)) else [m.ast.target]))}
                 for n in mc.nodes:
                     if n.kind == "stmt" and isinstance(n.ast, ast.Assign) and isinstance(n.ast.targets[0], ast.Subscript) and dotted(n.ast.targets[0].value) == "self.mask_":
-                        for a in derived:
-                            refresh = {m.id for m in mc.nodes if m.kind == "stmt" and isinstance(m.ast, ast.Assign) and any(dotted(t) == f"self.{a}" for t in m.ast.targets)}
-                            # calls of helpers that themselves refresh are not followed: a direct refresh must lie on every path to the exit
-                            pth = mc.paths_avoiding(n.id, mc.exit, refresh)
-                            if pth is not None:
-                                stale.append((meth.name, n, a))
-            if stale:
-                mname, n, a = stale[0]
-                ck.ob("R4-start-from-mask", CQ + "._sample_idx", f"stale-derived:{a}", False, f"start indices read from self.{a} (derived from mask_); `{short(n.ast)}` in {mname} does not refresh it",
-                      f"`self.{a}` caches a value computed from mask_, but {len(stale)} write(s) of mask_ (first: {mname} line {n.lineno}) leave it unchanged: sampling can start at slots that were just overwritten / disabled", loc(mi, n.ast))
-            else:
-                raise AnalysisError(f"{CQ}._sample_idx: start indices come from derived attribute(s) {derived} (unrecognised idiom)")
-        elif "self.mask_" not in got:
-            ck.ob("R4-start-from-mask", CQ + "._sample_idx", "uniform-over-enabled", False, f"return {got[:120]}", "start indices are not derived from mask_: disabled slots (other episodes, truncated tails, overwritten data) can be returned", loc(mi, f2))
-        else:
-            raise AnalysisError(f"{CQ}._sample_idx: returns `{got[:100]}` (unrecognised idiom)")
-    f3 = _m(repo, RB + "SubtrajectoryReplayBufferPER", "_sample_idx")
+                        # calls of helpers that themselves refresh are not followed: a direct refresh must lie on every path to the exit
+                        if any(isinstance(c_, ast.Call) and isinstance(c_.func, ast.Attribute) and isinstance(c_.func.value, ast.Name) and c_.func.value.id == "self" for m in mc.nodes if m.ast is not None and m.kind == "stmt" for c_ in ast.walk(m.ast)):
+                            continue   # the method calls other methods of the object, which may refresh: no witness from this method
+                        pth = mc.paths_avoiding(n.id, mc.exit, refresh)
+                        if pth is not None:
+                            stale.append((meth.name, n, derived[0], cls._module))
+        if stale:
+            mname, n, a, cmi = stale[0]
+            ck.ob("R4-start-from-mask", site, f"stale-derived:{a}", False, f"start indices read from self.{a} (derived from mask_); `{short(n.ast)}` in {mname} does not refresh it",
+                  f"`self.{a}` caches a value computed from mask_, but {len(stale)} write(s) of mask_ (first: {mname} line {n.lineno}) reach the end of the method without any write to an attribute that _sample_idx reads: sampling can start at slots that were just overwritten / disabled", loc(cmi, n.ast))
+            return
+        raise AnalysisError(f"{site}: start indices come from derived attribute(s) {derived} (unrecognised idiom)")
+    ing = set().union(*[_toks(w_) for w_ in wants]) | _init_fields(repo, CQ) | {"arange"}
+    if "mask_" not in _toks(got) and not _unread(got) and _toks(got) <= ing and not re.search(r"self\.\w+\(", got):
+        # read completely, made of the buffer's own state and the documented functions, and mask_ is not among them
+        ck.ob("R4-start-from-mask", site, "uniform-over-enabled", False, f"return {got[:120]}", "start indices are not derived from mask_: disabled slots (other episodes, truncated tails, overwritten data) can be returned", loc(mi, f2))
+        return
+    raise AnalysisError(f"{site}: returns `{got[:100]}` (unrecognised form)")
+
+
+def _prioritised_start(ck, repo, nf):
+    # ---- R4 (prioritised) -----------------------------------------------------------------------------------------
+    PER = RB + "SubtrajectoryReplayBufferPER"
+    site = PER + "._sample_idx"
+    f3 = _m(repo, PER, "_sample_idx")
+    mi3 = f3._module
     c3 = nf.cfg_of(f3)
     pbm = repo.method(RB + "PriorityBuffer", "prioritized_sampling")
     ck.need(pbm is not None, "PriorityBuffer.prioritized_sampling not found (anchor vanished)")
+    pb = pbm[1]
+    mipb = pb._module = repo.cls(pbm[0])._module
+    # roles by position in the sampler's signature (current_len, batch_size, rng, mask): the names are free
+    ps_ = _own_params(pb)
+    ck.need(len(ps_) >= 4, f"PriorityBuffer.prioritized_sampling: signature {ps_} has no (length, batch size, generator, mask) quadruple (unrecognised form)")
+    CL_, MK_ = ps_[0], ps_[3]
     scalls = stmt_calls(c3, lambda c: isinstance(c.func, ast.Attribute) and c.func.attr == "prioritized_sampling")
-    ck.need(len(scalls) == 1, f"{RB}SubtrajectoryReplayBufferPER._sample_idx: expected one prioritized_sampling call (unrecognised idiom)")
+    ck.need(len(scalls) == 1, f"{site}: expected one prioritized_sampling call (unrecognised idiom)")
     n3, c3call = scalls[0]
-    b = bind_call(pbm[1], c3call, skip_self=True)
-    s3 = Scope(c3, mi, {}, "per")
-    mval = nf.poly(b["mask"], s3, n3.id).canon() if "mask" in b else None
-    lval = nf.poly(b["current_len"], s3, n3.id).canon() if "current_len" in b else None
-    ok = mval == "self.mask_" and lval == "self.current_len" and isinstance(n3.ast, ast.Return)
-    if ok is False and mval == "self.mask_" and lval == "self.current_len":
-        raise AnalysisError(f"{RB}SubtrajectoryReplayBufferPER._sample_idx: sampled indices are post-processed (unrecognised idiom)")
-    ck.ob("R4-start-from-mask", RB + "SubtrajectoryReplayBufferPER._sample_idx", "mask-passed", ok, f"prioritized_sampling(current_len <- {lval}, mask <- {mval})", "" if ok else "the prioritised sampler must receive mask_ (and current_len) so that disabled starts have zero probability", loc(mi, f3))
+    if any(isinstance(a_, ast.Starred) for a_ in c3call.args) or any(k_.arg is None for k_ in c3call.keywords):
+        raise AnalysisError(f"{site}: `{short(c3call, 70)}` passes *args / **kwargs: the arguments cannot be bound to the sampler's parameters (unrecognised form)")
+    b = bind_call(pb, c3call, skip_self=True)
+    s3 = Scope(c3, mi3, {p: Poly.atom(p, {p}, {p}) for p in param_names(f3)}, "per")
+    mval = nf.poly(b[MK_], s3, n3.id).canon() if MK_ in b else None
+    lval = nf.poly(b[CL_], s3, n3.id).canon() if CL_ in b else None
+    sc_w = Scope(None, mi3, s3.env, "per")
+    len_ok = {nf.poly(parse_expr(t_), sc_w, None).canon() for t_ in ("self.current_len", "len(self)")}
+    mask_ok = {nf.poly(parse_expr(t_), sc_w, None).canon() for t_ in ("self.mask_", "self.mask_[:self.current_len]", "self.mask_[:len(self)]", "self.mask_.copy()")}
+    fields_ = _init_fields(repo, PER)
+    ok = mval in mask_ok and lval in len_ok
+    if ok and not isinstance(n3.ast, ast.Return):
+        rv = [n for n in c3.nodes if n.kind == "stmt" and isinstance(n.ast, ast.Return) and n.ast.value is not None]
+        callv = nf.poly(c3call, s3, n3.id).canon()
+        if not (len(rv) == 1 and nf.poly(rv[0].ast.value, s3, rv[0].id).canon() == callv):
+            raise AnalysisError(f"{site}: sampled indices are post-processed (unrecognised idiom)")
+    if not ok:
+        # evidence: the mask parameter is left at its default / given None, or an argument is another attribute of the buffer's own state
+        def other_state(v):
+            return v is not None and not _unread(v) and re.fullmatch(r"self\.\w+", v) is not None and v[5:] in fields_
+        no_mask = (mval is None and lval is not None) or mval == "None"
+        if not (no_mask or (mval not in mask_ok and other_state(mval)) or (mval in mask_ok and other_state(lval))):
+            raise AnalysisError(f"{site}: `{short(c3call, 80)}` ({CL_} <- {lval}, {MK_} <- {mval}) (unrecognised form)")
+    ck.ob("R4-start-from-mask", site, "mask-passed", ok, f"prioritized_sampling({CL_} <- {lval}, {MK_} <- {mval})", "" if ok else "the prioritised sampler must receive mask_ (and current_len) so that disabled starts have zero probability", loc(mi3, f3))
     # the sampler multiplies the priorities by the mask on the mask-given path (path evaluation, not text)
     from ..sympath import enumerate_paths, PathEval
-    pb = pbm[1]
-    pb._module = mi
     cpb = nf.cfg_of(pb)
     prets = [n for n in cpb.nodes if n.kind == "stmt" and isinstance(n.ast, ast.Return)]
     ck.need(len(prets) == 1, "PriorityBuffer.prioritized_sampling: expected one return")
-    env = {p_: Poly.atom(p_, {p_}, {p_}) for p_ in positional_params(pb)}
-    masked_paths = unmasked = 0
+    env = {p_: Poly.atom(p_, {p_}, {p_}) for p_ in param_names(pb)}
+    sc_p = Scope(None, mipb, env, "ps")
+    masked_forms = set()
+    for t_ in (f"{MK_}[:{CL_}] * self.priority[:{CL_}]", f"({MK_} * self.priority)[:{CL_}]", f"np.where({MK_}[:{CL_}] != 0, self.priority[:{CL_}], 0)", f"np.where({MK_}[:{CL_}], self.priority[:{CL_}], 0)",
+               f"np.where({MK_}[:{CL_}] > 0, self.priority[:{CL_}], 0)", f"np.where({MK_}[:{CL_}] == 0, 0, self.priority[:{CL_}])"):
+        try:
+            masked_forms.add(nf.poly(parse_expr(t_), sc_p, None).canon())
+        except Exception:
+            pass
+    masked_paths = 0
+    unmasked = []
     for pth in enumerate_paths(cpb, cpb.entry, {prets[0].id}):
         lits = []
         for nid, lab in pth:
             nd = cpb.nodes[nid]
             if nd.kind == "test" and lab in (True, False):
                 lits += [(t_, v_ == True) for t_, v_ in cpb._lits(nd.ast.test, lab, nid)]
-        mask_given = ("mask is not None", True) in lits or ("mask is None", False) in lits
-        pe = PathEval(nf, cpb, mi, "ps", env).run(pth[:-1])
+        mask_given = (f"{MK_} is not None", True) in lits or (f"{MK_} is None", False) in lits
+        if not mask_given:
+            continue
+        pe = PathEval(nf, cpb, mipb, "ps", env).run(pth[:-1])
         txt = pe.ev(prets[0].ast.value).canon()
         for k, v in pe.store.items():
             txt = txt.replace(k, v.canon())
-        if mask_given:
-            masked_paths += 1
-            if "mask[:current_len]*self.priority[:current_len]" not in txt and "self.priority[:current_len]*mask[:current_len]" not in txt:
-                unmasked += 1
+        masked_paths += 1
+        if any(f_ in txt for f_ in masked_forms):
+            continue
+        used = any(MK_ in _toks(t_) or MK_ in _toks(v_.canon()) for _n, t_, v_ in pe.log) or any(MK_ in _toks(str(ix_)) or MK_ in _toks(v_.canon()) for _n, _b, ix_, v_ in pe.effects)
+        if not used and MK_ not in _toks(txt) and not _unread(txt) and not re.search(r"self\.\w+\(", txt) and "self.priority" in txt:
+            unmasked.append(txt)    # the sampled distribution was read completely and no statement of the path uses the mask
+        else:
+            raise AnalysisError(f"PriorityBuffer.prioritized_sampling: on a path where a mask is given the sampled indices are `{txt[:120]}` (unrecognised form)")
     if masked_paths == 0:
         raise AnalysisError("PriorityBuffer.prioritized_sampling: no path on which a mask is given (unrecognised idiom)")
-    ck.ob("R4-start-from-mask", RB + "PriorityBuffer.prioritized_sampling", "mask-multiplied", unmasked == 0, f"{masked_paths} path(s) with a mask: sampled distribution uses priority[:len] * mask[:len]",
-          "" if unmasked == 0 else "on a path where a mask is given the sampled distribution does not multiply the priorities by it: disabled start indices keep a positive probability", loc(mi, pb))
+    ck.ob("R4-start-from-mask", RB + "PriorityBuffer.prioritized_sampling", "mask-multiplied", not unmasked, f"{masked_paths} path(s) with a mask: sampled distribution uses priority[:len] * mask[:len]" if not unmasked else f"with a mask given: {unmasked[0][:150]}",
+          "" if not unmasked else "on a path where a mask is given the sampled distribution does not multiply the priorities by it: disabled start indices keep a positive probability", loc(mipb, pb))
 
+
+def _flag_polarity(test, name):
+    """True: the branch is taken when parameter ``name`` is true; False: when it is false; None: not a test of that parameter alone."""
+    if isinstance(test, ast.Name) and test.id == name:
+        return True
+    if isinstance(test, ast.Call) and isinstance(test.func, ast.Name) and test.func.id == "bool" and len(test.args) == 1 and not test.keywords:
+        return _flag_polarity(test.args[0], name)
+    if isinstance(test, ast.UnaryOp) and isinstance(test.op, ast.Not):
+        r = _flag_polarity(test.operand, name)
+        return None if r is None else not r
+    if isinstance(test, ast.Compare) and len(test.ops) == 1 and isinstance(test.left, ast.Name) and test.left.id == name and isinstance(test.comparators[0], ast.Constant) and isinstance(test.comparators[0].value, bool):
+        if isinstance(test.ops[0], (ast.Is, ast.Eq)):
+            return test.comparators[0].value
+        if isinstance(test.ops[0], (ast.IsNot, ast.NotEq)):
+            return not test.comparators[0].value
+    return None
+
+
+def _views(ck, repo, nf):
     # ---- R5 / R6 ----------------------------------------------------------------------------------------------------
     f4 = _m(repo, CQ, "sample_batch")
+    mi = f4._module
+    site = CQ + ".sample_batch"
     c4 = nf.cfg_of(f4)
-    s4 = Scope(c4, mi, {p: Poly.atom(p, {p}, {p}) for p in positional_params(f4)}, CQ + ".sample_batch")
-    ifn = [n for n in c4.nodes if n.kind == "test" and isinstance(n.ast, ast.If) and ast.unparse(n.ast.test) in ("include_intermediate", "not include_intermediate")]
-    if len(ifn) == 1 and ast.unparse(ifn[0].ast.test).startswith("not "):
-        # swapped arms: normalise to (with-intermediate, without-intermediate)
-        import copy as _copy
-        sw = _copy.copy(ifn[0].ast)
-        sw.body, sw.orelse = ifn[0].ast.orelse, ifn[0].ast.body
-        ifn[0].ast_swapped = sw
-    ck.need(len(ifn) == 1, f"{CQ}.sample_batch: include_intermediate branch not found")
+    # roles by position in the documented signature (batch_size, horizon, include_intermediate, rng): the names are free
+    ps_ = _own_params(f4)
+    ck.need(len(ps_) >= 4, f"{site}: signature {ps_} is not (batch size, horizon, include_intermediate, generator) (unrecognised form)")
+    BS, HZ, II, RG = ps_[:4]
+    s4 = Scope(c4, mi, {p: Poly.atom(p, {p}, {p}) for p in param_names(f4)}, site)
+    ifn = [(n, _flag_polarity(n.ast.test, II)) for n in c4.nodes if n.kind == "test" and isinstance(n.ast, ast.If)]
+    ifn = [(n, pol) for n, pol in ifn if pol is not None]
+    ck.need(len(ifn) == 1, f"{site}: {len(ifn)} branches on `{II}` (unrecognised idiom)")
+    ifnode, pol = ifn[0]
+    arm_t, arm_f = list(ifnode.ast.body), list(ifnode.ast.orelse)
+    if not arm_f and arm_t and isinstance(arm_t[-1], (ast.Return, ast.Raise)) and ifnode.ast in f4.body:
+        arm_f = f4.body[f4.body.index(ifnode.ast) + 1:]      # `if c: ...; return x` followed by the other view
+    with_branch, without_branch = (arm_t, arm_f) if pol else (arm_f, arm_t)
     # the window index matrix: what every field is gathered at in the with-intermediate view (located by its use, not by its name)
-    with_branch = getattr(ifn[0], 'ast_swapped', ifn[0].ast).body
     per_key_w = _field_indices(c4, with_branch, f4)
     if not per_key_w:
-        raise AnalysisError(f"{CQ}.sample_batch: gather of the with-intermediate view not found (unrecognised idiom)")
+        raise AnalysisError(f"{site}: gather of the with-intermediate view not found (unrecognised idiom)")
     wforms = {nf.poly(ix, s4, at).canon() for ix, at in per_key_w.values()}
-    ck.need(len(wforms) == 1, f"{CQ}.sample_batch: fields of the with-intermediate view are gathered at different indices {sorted(wforms)[:2]} (unrecognised idiom)")
+    ck.need(len(wforms) == 1, f"{site}: fields of the with-intermediate view are gathered at different indices {sorted(wforms)[:2]} (unrecognised idiom)")
     W_ast, W_at = next(iter(per_key_w.values()))
-    ivp = nf.poly(W_ast, s4, W_at)
-    iv = ivp.canon()
-    wantp = nf.poly(parse_expr("(self._sample_idx(batch_size, rng)[:, np.newaxis] + np.arange(horizon)[np.newaxis]) % self.current_len"), Scope(None, mi, s4.env, "w"), None)
-    want = wantp.canon()
-    ok = iv == want
-    if not ok and not same_ingredients(ivp, wantp, ("buffer_size",)):
-        raise AnalysisError(f"{CQ}.sample_batch: window indices `{iv[:120]}` (unrecognised form)")
-    ck.ob("R5-window-indices", CQ + ".sample_batch", "consecutive-mod-len", ok, f"indices = {iv}", "" if ok else f"must be {want}: consecutive slots from the sampled start, wrapped at current_len (buffer_size would read never-written slots of a partly filled buffer)", loc(mi, f4))
+    iv = nf.poly(W_ast, s4, W_at).canon()
+    sc_w = Scope(None, mi, s4.env, "w")
+
+    def spec_(txt):
+        return nf.poly(parse_expr(txt), sc_w, None)
+    START = f"self._sample_idx({BS}, {RG})"
+    STARTS = [START]
+    # the draw itself where _sample_idx was expanded into this method (it moved to a mixin / became a helper): same start indices
+    try:
+        f2 = _m(repo, CQ, "_sample_idx")
+        c2 = nf.cfg_of(f2)
+        r2 = [n for n in c2.nodes if n.kind == "stmt" and isinstance(n.ast, ast.Return) and n.ast.value is not None]
+        pp2 = _own_params(f2)
+        if len(r2) == 1 and len(pp2) >= 2:
+            inl = nf.poly(r2[0].ast.value, Scope(c2, f2._module, {pp2[0]: s4.env[BS], pp2[1]: s4.env[RG]}, "start"), r2[0].id).canon()
+            if _parse_canon(inl) is not None and spec_(f"({inl})").canon() == inl:
+                STARTS.append(f"({inl})")
+    except Exception:
+        pass
+    start_cs = {spec_(S_).canon() for S_ in STARTS}
+    LENS = ("self.current_len", "len(self)")
+    COLS = [f"{S_}[:, {nx}]" for S_ in STARTS for nx in ("np.newaxis", "None")] + [f"{S_}.reshape(-1, 1)" for S_ in STARTS] + [f"np.reshape({S_}, (-1, 1))" for S_ in STARTS]
+    cols = [spec_(t_) for t_ in COLS]
+    steps = [spec_(t_) for nx in ("np.newaxis", "None") for t_ in (f"np.arange({HZ})[{nx}]", f"np.arange({HZ})[{nx}, :]")] + [spec_(f"np.arange({HZ})")]
+    STEPS = [f"np.arange({HZ})[{nx}]" for nx in ("np.newaxis", "None")] + [f"np.arange({HZ})[{nx}, :]" for nx in ("np.newaxis", "None")] + [f"np.arange({HZ})", f"np.arange({HZ}).reshape(1, -1)"]
+    wants = {spec_(f"({c_} + {ar}) % {L_}").canon() for c_ in COLS for ar in STEPS for L_ in LENS}
+    wants |= {spec_(f"np.add.outer({S_}, np.arange({HZ})) % {L_}").canon() for S_ in STARTS for L_ in LENS}     # the outer sum is the same matrix
+    want = spec_(f"({START}[:, np.newaxis] + np.arange({HZ})[np.newaxis]) % self.current_len").canon()
+    ok = iv in wants
+    why5 = ""
+    if not ok:
+        # evidence: the same sum reduced modulo another attribute of the buffer, or the documented sum with another (constant) stride
+        e5 = _parse_canon(iv)
+        p5 = nf.poly(e5, sc_w, None) if e5 is not None else None
+        m5 = nf.meta.get(p5.single_atom() or "", {}) if p5 is not None else {}
+        if not (m5.get("fn") in ("mod", "remainder") and len(m5.get("args", [])) == 2 and not m5.get("kws")):
+            raise AnalysisError(f"{site}: window indices `{iv[:120]}` (unrecognised form)")
+        A5, M5 = m5["args"]
+        len_ok = M5.canon() in {spec_(L_).canon() for L_ in LENS}
+        sums_ok = any(A5 == c_ + a_ for c_ in cols for a_ in steps)
+        strided = [k_ for c_ in cols for a_ in steps for k_ in (2, 3, -1, 0) if A5 == c_ + a_.scale(k_)]
+        other_len = re.fullmatch(r"self\.\w+", M5.canon()) is not None and M5.canon()[5:] in _init_fields(repo, CQ)
+        if sums_ok and not len_ok and other_len:
+            why5 = f"consecutive slots from the sampled start must be wrapped at current_len, not at {M5.canon()} (buffer_size would read never-written slots of a partly filled buffer)"
+        elif len_ok and strided:
+            why5 = f"the window must hold consecutive slots from the sampled start (stride 1), got stride {strided[0]}"
+        else:
+            raise AnalysisError(f"{site}: window indices `{iv[:120]}` (unrecognised form)")
+    ck.ob("R5-window-indices", site, "consecutive-mod-len", ok, f"indices = {iv}", "" if ok else f"must be {want}: {why5}", loc(mi, f4))
     # no-intermediate view: which index gathers each field (key-specialised partial evaluation of the branch)
-    per_key = _field_indices(c4, getattr(ifn[0], 'ast_swapped', ifn[0].ast).orelse, f4)
-    ck.need(per_key, f"{CQ}.sample_batch: per-field index selection of the no-intermediate view not found (unrecognised idiom)")
+    per_key = _field_indices(c4, without_branch, f4)
+    ck.need(per_key, f"{site}: per-field index selection of the no-intermediate view not found (unrecognised idiom)")
 
     def col(which):
-        sl = ast.Subscript(value=W_ast, slice=ast.Tuple(elts=[ast.Slice(lower=None, upper=None, step=None), ast.Constant(value=0) if which == 0 else ast.UnaryOp(op=ast.USub(), operand=ast.Constant(value=1))], ctx=ast.Load()), ctx=ast.Load())
-        return nf.poly(ast.fix_missing_locations(ast.copy_location(sl, W_ast)), s4, W_at).canon()
-    w_first, w_last = col(0), col(-1)
-    w_all = iv
-    start_c = nf.poly(parse_expr("self._sample_idx(batch_size, rng)"), Scope(None, mi, s4.env, "w"), None).canon()
-    REDUCERS = ("mod(", "remainder(", "fmod(", "where(", "take(", "divmod(")
+        """Canonical form of column ``which`` (an expression text) of the window matrix, in the spellings of `all rows`."""
+        out = set()
+        for rows in (":", "..."):
+            sl = ast.Subscript(value=W_ast, slice=parse_expr(f"_[{rows}, {which}]").slice, ctx=ast.Load())
+            try:
+                out.add(nf.poly(ast.fix_missing_locations(ast.copy_location(sl, W_ast)), s4, W_at).canon())
+            except Exception:
+                pass
+        return out
+    w_first = col("0") | start_cs       # start itself lies in [0, current_len): same slot as column 0
+    w_last = col("-1") | col(f"{HZ} - 1")
+    w_all = {iv}
+    w_other = set().union(*[col(str(c_)) for c_ in (1, 2, 3, -2, -3)])
+    ing6 = _toks(iv) | _init_fields(repo, CQ) | {"arange", "minimum", "maximum", "clip"}
     for key, (ix, at) in sorted(per_key.items()):
         got = nf.poly(ix, s4, at).canon()
         role = "first" if key in ("observation", "action") else "last" if key == "next_observation" else "window"
         want_k = {"first": w_first, "last": w_last, "window": w_all}[role]
-        ok = got == want_k or (role == "first" and got == start_c)   # start itself lies in [0, current_len): same slot as column 0
+        ok = got in want_k
         why = ""
         if not ok:
-            if start_c not in got:
-                why = f"the gather index of `{key}` does not derive from the sampled start index: the field comes from another transition than the rest of the row"
-            elif role == "last" and _offset_unreduced(ix, at, c4):
+            if _unread(got):
+                raise AnalysisError(f"{site}: gather index of `{key}` is `{got[:100]}` (unrecognised form)")
+            if got in w_first | w_last | w_all | w_other:
+                # positive evidence: the index is another documented part of the same window
+                part = "the first column of the window" if got in w_first else "the last column of the window" if got in w_last else "the full window" if got in w_all else "an inner column of the window"
+                need_ = {"first": "the first column", "last": "the last column (the successor observation belongs to the end of the n-step window)", "window": "the full window"}[role]
+                why = f"`{key}` is gathered at {part}, it must be gathered at {need_}"
+            elif role == "last" and any(c_ in got for c_ in start_cs) and _offset_unreduced(ix, at, c4, 0, HZ):
                 why = (f"the successor index of `{key}` ({got[:90]}) is an offset from the start that is never reduced modulo the ring length: "
                        "windows that wrap around the end of the storage read the wrong slot (or clamp to the last slot)")
-            elif role == "last" and got.startswith(w_all + "["):
-                why = f"`{key}` is gathered at another column of the window ({got[len(w_all):]}) than the last one: the successor observation does not belong to the end of the n-step window"
-            elif role == "window" or role == "first":
-                why = f"`{key}` must be gathered at {'the first column of the window' if role == 'first' else 'the full window'} ({want_k[:80]}), got {got[:90]}"
+            elif not any(c_ in got for c_ in start_cs) and _toks(got) <= ing6 and not re.search(r"self\.\w+\(", got):
+                why = f"the gather index of `{key}` does not derive from the sampled start index: the field comes from another transition than the rest of the row"
             else:
-                raise AnalysisError(f"{CQ}.sample_batch: successor index `{got[:120]}` is neither indices[:, -1] nor a form this check can decide")
-        ck.ob("R6-no-intermediate-view", CQ + ".sample_batch", f"field:{key}", ok, f"{key} <- buffer[{short(ix, 50)}]", why, loc(mi, ix) if hasattr(ix, "lineno") else loc(mi, f4))
+                raise AnalysisError(f"{site}: gather index of `{key}` is `{got[:120]}`, neither a documented part of the window nor a form this check can decide (unrecognised form)")
+        ck.ob("R6-no-intermediate-view", site, f"field:{key}", ok, f"{key} <- buffer[{short(ix, 50)}]", why, loc(mi, ix) if hasattr(ix, "lineno") else loc(mi, f4))
     ck.floor("no-intermediate-fields", len(per_key), 5)
 
 
@@ -592,6 +1071,18 @@ MUTANTS = [
     {"id": "c04-window-stride", "file": _F, "rule": "R5", "find": "            indices[:, np.newaxis] + np.arange(horizon)[np.newaxis]", "replace": "            indices[:, np.newaxis] + 2 * np.arange(horizon)[np.newaxis]"},
     {"id": "c04-next-obs-first", "file": _F, "rule": "R6", "find": "                    indices_without_intermediate = indices[:, -1]", "replace": "                    indices_without_intermediate = indices[:, 0]"},
     {"id": "c04-action-last", "file": _F, "rule": "R6", "find": "                if k in [\"observation\", \"action\"]:", "replace": "                if k in [\"observation\"]:"},
+    {"id": "c04-per-mask-not-passed", "file": _F, "rule": "R4", "find": "            self.current_len, batch_size, rng, self.mask_\n", "replace": "            self.current_len, batch_size, rng\n"},
+    {"id": "c04-sampler-ignores-mask", "file": _F, "rule": "R4", "nth": 0, "find": "            priority = priority * mask[:current_len]", "replace": "            pass"},
+    {"id": "c04-stale-start-cache", "file": _F, "rule": "R4", "find": "        nz = np.nonzero(self.mask_)[0]", "replace": "        if getattr(self, \"_starts\", None) is None:\n            self._starts = np.nonzero(self.mask_)[0]\n        nz = self._starts"},
+    {"id": "c04-successor-obs-wrong-field", "file": _F, "rule": "R3", "find": "            self.buffer[\"observation\"][self.insert_idx] = sample[\n                \"next_observation\"\n            ]\n", "replace": "            self.buffer[\"observation\"][self.insert_idx] = sample[\n                \"observation\"\n            ]\n"},
+    {"id": "c04-clear-after-tail", "file": _F, "rule": "R3", "find": "            )  # mask out truncated subtrajectories\n", "replace": "            )  # mask out truncated subtrajectories\n            self.mask_[(self.insert_idx - 1) % self.buffer_size] = 0\n"},
+    {"id": "c04-length-not-counted", "file": _F, "rule": "R1", "find": "        self.current_len = min(self.current_len + 1, self.buffer_size)\n        self.episode_timesteps += 1", "replace": "        self.current_len = min(self.current_len, self.buffer_size)\n        self.episode_timesteps += 1"},
+    {"id": "c04-advance-by-two", "file": _F, "rule": "R1", "find": "        inserted_at = [self.insert_idx]\n        self.insert_idx = (self.insert_idx + 1) % self.buffer_size\n", "replace": "        inserted_at = [self.insert_idx]\n        self.insert_idx = (self.insert_idx + 2) % self.buffer_size\n"},
+    {"id": "c04-tail-terminated-only-flag", "file": _F, "rule": "R3", "find": "                0 if sample[\"truncated\"] else 1", "replace": "                1 if sample[\"terminated\"] else 0"},
+    {"id": "c04-next-obs-unrelated-index", "file": _F, "rule": "R6", "find": "                    indices_without_intermediate = indices[:, -1]", "replace": "                    indices_without_intermediate = np.arange(batch_size)"},
+    {"id": "c04-enable-on-short-episode", "file": _F, "rule": "R2", "find": "        if self.episode_timesteps > self.horizon:\n            self.mask_[(self.insert_idx - self.horizon) % self.buffer_size] = 1\n", "replace": "        if self.episode_timesteps > self.horizon:\n            self.mask_[(self.insert_idx - self.horizon) % self.buffer_size] = 1\n        else:\n            self.mask_[(self.insert_idx - self.horizon) % self.buffer_size] = 1\n"},
+    {"id": 'c04-tail-shifted-by-one', "file": _F, "rule": 'R3', "find": '            past_idx = (\n                self.insert_idx\n                - np.arange(min(self.episode_timesteps, self.horizon))\n                - 1\n            ) % self.buffer_size\n', "replace": '            n_tail = min(self.episode_timesteps, self.horizon)\n            past_idx = (self.insert_idx - np.arange(n_tail)) % self.buffer_size\n'},
+    {"id": 'c04-tail-one-slot-too-many', "file": _F, "rule": 'R3', "find": '            past_idx = (\n                self.insert_idx\n                - np.arange(min(self.episode_timesteps, self.horizon))\n                - 1\n            ) % self.buffer_size\n', "replace": '            n_tail = min(self.episode_timesteps, self.horizon) + 1\n            past_idx = (self.insert_idx - 1 - np.arange(n_tail)) % self.buffer_size\n'},
 ]
 BENIGN = [
     {"id": "c04-b-sampler-inplace-mask", "file": _F, "nth": 0, "find": "            priority = priority * mask[:current_len]", "replace": "            priority = priority.copy()\n            priority *= mask[:current_len]"},
@@ -603,4 +1094,20 @@ BENIGN = [
     {"id": "c04-b-table-comprehension", "file": "rl_blox/blox/replay_buffer.py", "find": "            batch = {}\n            for k in self.buffer:\n                if k in [\"observation\", \"action\"]:\n                    indices_without_intermediate = indices[:, 0]\n                elif k == \"next_observation\":\n                    indices_without_intermediate = indices[:, -1]\n                else:\n                    indices_without_intermediate = indices\n                batch[k] = jnp.asarray(\n                    self.buffer[k][indices_without_intermediate]\n                )\n            batch = self.Batch(**batch)\n", "replace": "            select = {\n                \"observation\": indices[:, 0],\n                \"action\": indices[:, 0],\n                \"next_observation\": indices[:, -1],\n            }\n            batch = self.Batch(\n                **{\n                    k: jnp.asarray(self.buffer[k][select.get(k, indices)])\n                    for k in self.buffer\n                }\n            )\n"},
     {"id": "c04-b-enable-commuted", "file": _F, "find": "            self.mask_[(self.insert_idx - self.horizon) % self.buffer_size] = 1", "replace": "            self.mask_[(-self.horizon + self.insert_idx) % self.buffer_size] = 1"},
     {"id": "c04-b-guard-flipped", "file": _F, "find": "        if self.episode_timesteps > self.horizon:", "replace": "        if self.episode_timesteps > self.horizon and True:"},
+    {"id": 'c04-b-clear-mod-capacity', "file": _F, "find": '        self.mask_[self.insert_idx] = 0\n        if self.episode_timesteps > self.horizon:', "replace": '        self.mask_[self.insert_idx % self.buffer_size] = 0\n        if self.episode_timesteps > self.horizon:'},
+    {"id": 'c04-b-enable-plus-capacity', "file": _F, "find": '            self.mask_[(self.insert_idx - self.horizon) % self.buffer_size] = 1', "replace": '            self.mask_[(self.insert_idx + self.buffer_size - self.horizon) % self.buffer_size] = True'},
+    {"id": 'c04-b-threshold-ge-plus-one', "file": _F, "find": '        if self.episode_timesteps > self.horizon:', "replace": '        if self.episode_timesteps >= self.horizon + 1:'},
+    {"id": 'c04-b-tail-if-else', "file": _F, "find": '            self.mask_[past_idx] = (\n                0 if sample["truncated"] else 1\n            )  # mask out truncated subtrajectories\n', "replace": '            if sample["truncated"]:\n                self.mask_[past_idx] = 0\n            else:\n                self.mask_[past_idx] = 1\n'},
+    {"id": 'c04-b-end-flags-bool', "file": _F, "find": '        if sample["terminated"] or sample["truncated"]:\n            for k in self.buffer:', "replace": '        if bool(sample["terminated"]) or bool(sample["truncated"]):\n            for k in self.buffer:'},
+    {"id": 'c04-b-items-loop-last-column', "file": _F, "find": '            batch = {}\n            for k in self.buffer:\n                if k in ["observation", "action"]:\n                    indices_without_intermediate = indices[:, 0]\n                elif k == "next_observation":\n                    indices_without_intermediate = indices[:, -1]\n                else:\n                    indices_without_intermediate = indices\n                batch[k] = jnp.asarray(\n                    self.buffer[k][indices_without_intermediate]\n                )\n            batch = self.Batch(**batch)\n', "replace": '            batch = {}\n            for name, storage in self.buffer.items():\n                if name in ["observation", "action"]:\n                    sel = indices[:, 0]\n                elif name == "next_observation":\n                    sel = indices[:, horizon - 1]\n                else:\n                    sel = indices\n                batch[name] = jnp.asarray(storage[sel])\n            batch = self.Batch(**batch)\n'},
+    {"id": 'c04-b-window-broadcast-none', "file": _F, "find": '            indices[:, np.newaxis] + np.arange(horizon)[np.newaxis]\n        ) % self.current_len', "replace": '            indices[:, None] + np.arange(horizon)\n        ) % len(self)'},
+    {"id": 'c04-b-sample-batch-params-renamed', "file": _F, "edits": [('        batch_size: int,\n        horizon: int,\n        include_intermediate: bool,\n        rng: np.random.Generator,\n    ) -> tuple[jnp.ndarray]:\n        """Sample a batch of transitions from the replay buffer.\n\n        Parameters\n        ----------\n        batch_size : int\n            Number of samples to be returned.\n\n        horizon : int', '        n_samples: int,\n        n_steps: int,\n        with_steps: bool,\n        gen: np.random.Generator,\n    ) -> tuple[jnp.ndarray]:\n        """Sample a batch of transitions from the replay buffer.\n\n        Parameters\n        ----------\n        batch_size : int\n            Number of samples to be returned.\n\n        horizon : int'), ('        assert batch_size > 0\n        assert horizon > 0\n\n        indices = self._sample_idx(batch_size, rng)', '        assert n_samples > 0\n        assert n_steps > 0\n\n        indices = self._sample_idx(n_samples, gen)'), ('np.arange(horizon)[np.newaxis]\n        ) % self.current_len', 'np.arange(n_steps)[np.newaxis]\n        ) % self.current_len'), ('        if include_intermediate:\n            # sample sub', '        if with_steps:\n            # sample sub')]},
+    {"id": 'c04-b-sampler-mask-renamed-where', "file": _F, "edits": [('        mask: npt.NDArray[int] | None = None,\n    ) -> npt.NDArray[int]:\n        """Sample indices based on the priority distribution."""\n        priority = self.priority[:current_len]\n        if mask is not None:\n            priority = priority * mask[:current_len]\n', '        start_mask: npt.NDArray[int] | None = None,\n    ) -> npt.NDArray[int]:\n        """Sample indices based on the priority distribution."""\n        priority = self.priority[:current_len]\n        if start_mask is not None:\n            priority = np.where(start_mask[:current_len] != 0, priority, 0)\n')]},
+    {"id": 'c04-b-per-len-and-local', "file": _F, "find": '        return self.priority.prioritized_sampling(\n            self.current_len, batch_size, rng, self.mask_\n        )', "replace": '        sampled = self.priority.prioritized_sampling(\n            len(self), batch_size, rng, self.mask_\n        )\n        return sampled'},
+    {"id": 'c04-b-uniform-flatnonzero-kwonly', "file": _F, "edits": [('    def _sample_idx(\n        self, batch_size: int, rng: np.random.Generator\n    ) -> npt.NDArray[int]:\n        nz = np.nonzero(self.mask_)[0]\n        indices = rng.integers(0, len(nz), size=batch_size)\n        return nz[indices]\n', '    def _sample_idx(\n        self, n: int, *, rng: np.random.Generator\n    ) -> npt.NDArray[int]:\n        starts = np.flatnonzero(self.mask_ == 1)\n        return starts[rng.integers(starts.size, size=n)]\n'), ('        indices = self._sample_idx(batch_size, rng)\n', '        indices = self._sample_idx(batch_size, rng=rng)\n')]},
+    {"id": 'c04-b-tail-ascending', "file": _F, "find": '            past_idx = (\n                self.insert_idx\n                - np.arange(min(self.episode_timesteps, self.horizon))\n                - 1\n            ) % self.buffer_size\n', "replace": '            n_tail = min(self.episode_timesteps, self.horizon)\n            past_idx = (self.insert_idx - n_tail + np.arange(n_tail)) % self.buffer_size\n'},
+    {"id": 'c04-b-tail-count-if-statement', "file": _F, "find": '            past_idx = (\n                self.insert_idx\n                - np.arange(min(self.episode_timesteps, self.horizon))\n                - 1\n            ) % self.buffer_size\n', "replace": '            if self.episode_timesteps < self.horizon:\n                n_tail = self.episode_timesteps\n            else:\n                n_tail = self.horizon\n            past_idx = (self.insert_idx - 1 - np.arange(n_tail)) % self.buffer_size\n'},
+    {"id": 'c04-b-start-draw-in-mixin', "file": _F, "edits": [('    def _sample_idx(\n        self, batch_size: int, rng: np.random.Generator\n    ) -> npt.NDArray[int]:\n        nz = np.nonzero(self.mask_)[0]\n        indices = rng.integers(0, len(nz), size=batch_size)\n        return nz[indices]\n\n', ''), ('class SubtrajectoryReplayBuffer:\n', 'class _UniformStarts:\n    def _sample_idx(\n        self, batch_size: int, rng: np.random.Generator\n    ) -> npt.NDArray[int]:\n        nz = np.nonzero(self.mask_)[0]\n        indices = rng.integers(0, len(nz), size=batch_size)\n        return nz[indices]\n\n\nclass SubtrajectoryReplayBuffer(_UniformStarts):\n')]},
+    {"id": 'c04-b-ring-helpers-in-mixin', "file": _F, "edits": [('class SubtrajectoryReplayBuffer:\n', 'class _RingMixin:\n    def _advance(self):\n        self.insert_idx = (self.insert_idx + 1) % self.buffer_size\n        self.current_len = min(self.current_len + 1, self.buffer_size)\n\n\nclass SubtrajectoryReplayBuffer(_RingMixin):\n'), ('        self.current_len = min(self.current_len + 1, self.buffer_size)\n        self.episode_timesteps += 1', '        self.episode_timesteps += 1'), ('        inserted_at = [self.insert_idx]\n        self.insert_idx = (self.insert_idx + 1) % self.buffer_size\n', '        inserted_at = [self.insert_idx]\n        self._advance()\n'), ('            inserted_at += [self.insert_idx]\n            self.insert_idx = (self.insert_idx + 1) % self.buffer_size\n            self.current_len = min(self.current_len + 1, self.buffer_size)\n', '            inserted_at += [self.insert_idx]\n            self._advance()\n')]},
+    {"id": 'c04-b-window-outer-sum', "file": _F, "find": '        indices = (\n            indices[:, np.newaxis] + np.arange(horizon)[np.newaxis]\n        ) % self.current_len\n', "replace": '        indices = np.add.outer(indices, np.arange(horizon)) % self.current_len\n'},
 ]
